@@ -16,36 +16,29 @@ Record Rl (s : sys) (o : obs) : Prop := mkRl {
   rl_spend : forall th i, spc (get_thread s th) = SPendE i -> exists xo, get i (oi o) = Some xo /\ o_endst xo <> None;
   rl_ready : forall n v r, get n (viss s) = Some v -> get n (onm o) = Some r -> hl v = HReady -> r_ready r = true }.
 
-Lemma endst_mono e j y y' : oinst_le e j y y' -> o_endst y <> None -> o_endst y' <> None.
-Proof. intros (_ & _ & _ & _ & _ & _ & _ & [E|(s0 & _ & E)]) H; rewrite E; [exact H|discriminate]. Qed.
+Lemma endst_mono e c j y y' : oinst_le e c j y y' -> o_endst y <> None -> o_endst y' <> None.
+Proof. intros (_ & _ & _ & _ & _ & _ & _ & _ & _ & [E|(s0 & _ & E)] & _) H; rewrite E; [exact H|discriminate]. Qed.
 
-Lemma ole_inv e o o' j y' : ole e o o' -> get j (oi o') = Some y' -> exists y, get j (oi o) = Some y /\ oinst_le e j y y'.
-Proof.
-  intros OL H. destruct (get j (oi o)) as [y|] eqn:E.
-  - destruct (ole_oi _ _ _ OL j y E) as (y2 & E2 & L). exists y. split; [reflexivity|congruence].
-  - rewrite (ole_none _ _ _ OL j E) in H. discriminate.
-Qed.
-
-Lemma pend_just_mono e o o' p : ole e o o' -> pend_just o p -> pend_just o' p.
+Lemma pend_just_mono e c0 o o' p : ole e c0 o o' -> pend_just o p -> pend_just o' p.
 Proof.
   intros OL. destruct p as [[i|i|i| | |c]|]; cbn; auto; intros (xo & A & B);
-  destruct (ole_oi _ _ _ OL i xo A) as (y' & E & L); exists y'; (split; [exact E|]).
-  - destruct L as (_ & _ & _ & _ & _ & L & _). auto.
+  destruct (ole_oi _ _ _ _ OL i xo A) as (y' & E & L); exists y'; (split; [exact E|]).
+  - destruct L as (_ & _ & _ & _ & _ & _ & _ & L & _). auto.
   - eapply endst_mono; eauto.
-  - destruct L as (_ & _ & _ & _ & _ & _ & L & _). auto.
+  - destruct L as (_ & _ & _ & _ & _ & _ & _ & _ & L & _). auto.
 Qed.
 
-Lemma Rl_frame e s s' o o' : Rl s o -> frL o' s s' -> ole e o o' -> Rl s' o'.
+Lemma Rl_frame e c0 s s' o o' : Rl s o -> frL o' s s' -> ole e c0 o o' -> Rl s' o'.
 Proof.
   intros [L1 L2 L3 L4] F OL. constructor.
   - intros i x' xo' Hx' Hxo'.
     pose proof (fl_insts _ _ _ F i) as A. destruct (get i (insts s)) as [x|] eqn:Ex; [|congruence].
     destruct A as (x2 & E2 & _ & IL). assert (x2 = x') by congruence. subst x2.
     destruct (IL xo' Hxo') as (I1 & I2 & I3 & I4 & I5).
-    destruct (ole_inv _ _ _ _ _ OL Hxo') as (xo & Exo & LE).
+    destruct (ole_inv _ _ _ _ _ _ OL Hxo') as (xo & Exo & LE).
     destruct (L1 i x xo Ex Exo) as (K1 & K2 & K3 & K4 & K5).
-    pose proof (endst_mono _ _ _ _ LE) as EM.
-    destruct LE as (_ & _ & M1 & _ & M3 & M4 & M5 & M6).
+    pose proof (endst_mono _ _ _ _ _ LE) as EM.
+    destruct LE as (_ & _ & _ & _ & M1 & _ & M3 & M4 & M5 & M6 & _).
     split; [|split; [|split; [|split]]].
     + intros Q. destruct (I1 Q); auto.
     + intros Q. destruct (I2 Q); auto.
@@ -54,15 +47,15 @@ Proof.
     + intros s1 c Q. destruct (I5 s1 c Q) as [(s2 & c2 & Q1)|Q1]; [|exact Q1]. apply EM. eapply K5; eauto.
   - intros th. destruct (fl_pend _ _ _ F th) as [E|E]; [rewrite E; eapply pend_just_mono; eauto|exact E].
   - intros th i Q. destruct (fl_spc _ _ _ F th i Q) as [E|E]; [|exact E].
-    destruct (L3 th i E) as (xo & A & B). destruct (ole_oi _ _ _ OL i xo A) as (y' & E' & L).
+    destruct (L3 th i E) as (xo & A & B). destruct (ole_oi _ _ _ _ OL i xo A) as (y' & E' & L).
     exists y'. split; [exact E'|eapply endst_mono; eauto].
   - intros n v' r' Hv' Hr' Hh. pose proof (fl_viss _ _ _ F n) as A. destruct (get n (viss s)) as [v|] eqn:Ev; [|congruence].
     destruct A as (v2 & E2 & HL). assert (v2 = v') by congruence. subst v2.
     destruct (HL Hh) as [Q|Q]; [|now apply Q].
     destruct (get n (onm o)) as [r|] eqn:Er.
-    + destruct (ole_on _ _ _ OL n r Er) as (r2 & E3 & LR). assert (r2 = r') by congruence. subst r2.
+    + destruct (ole_on _ _ _ _ OL n r Er) as (r2 & E3 & LR). assert (r2 = r') by congruence. subst r2.
       apply LR. eapply L4; eauto.
-    + rewrite (ole_on_none _ _ _ OL n Er) in Hr'. discriminate.
+    + rewrite (ole_on_none _ _ _ _ OL n Er) in Hr'. discriminate.
 Qed.
 
 Lemma pend_just_set o o1 i y0 p : get i (oi o) = None -> oi o1 = set i y0 (oi o) -> pend_just o p -> pend_just o1 p.
@@ -85,20 +78,34 @@ Proof.
 Qed.
 
 (* ---- the gate -------------------------------------------------------------------------------------------------- *)
-Definition Gate (o : obs) (ix : nat) (k : name) (c : cond) : Prop :=
-  (forall j yo, get j (oi o) = Some yo -> o_nm yo = k -> ~ o_idx yo < ix) \/
-  (exists j yo, get j (oi o) = Some yo /\ o_nm yo = k /\ o_idx yo < ix /\ met o c yo = true).
+(* a registered instance of k whose registration index is below b *)
+Definition olderR (o : obs) (k : name) (b : nat) : Prop :=
+  exists j yo, get j (oi o) = Some yo /\ o_reg yo = true /\ o_nm yo = k /\ o_idx yo < b.
 
-Lemma on_get_ready_mono e o o' n : ole e o o' -> r_ready (on_get o n) = true -> r_ready (on_get o' n) = true.
+Definition GateN (o : obs) (k : name) (c : cond) (b : nat) : Prop :=
+  ~ olderR o k b \/
+  exists j yo, get j (oi o) = Some yo /\ o_reg yo = true /\ o_nm yo = k /\ o_idx yo < b /\ met o c yo = true.
+
+Definition GateW (o : obs) (k : name) (c : cond) (w : name * option iid * nat) : Prop :=
+  match w with
+  | (_, Some j, _) => exists yo, get j (oi o) = Some yo /\ o_nm yo = k /\ met o c yo = true
+  | (_, None, b) => GateN o k c b
+  end.
+
+(* what mon_C01 checks for dependency (k, c) of the instance with observer record xo *)
+Definition Gate (o : obs) (xo : oinst) (k : name) (c : cond) : Prop :=
+  exists w, wait_of xo k = Some w /\ GateW o k c w.
+
+Lemma on_get_ready_mono e c o o' n : ole e c o o' -> r_ready (on_get o n) = true -> r_ready (on_get o' n) = true.
 Proof.
   intros OL. unfold on_get. destruct (get n (onm o)) as [r|] eqn:E; [|cbn; discriminate].
-  destruct (ole_on _ _ _ OL n r E) as (r' & E' & L). rewrite E'. exact L.
+  destruct (ole_on _ _ _ _ OL n r E) as (r' & E' & L). rewrite E'. exact L.
 Qed.
 
-Lemma met_mono e o o' j c y y' : ole e o o' -> oinst_le e j y y' -> met o c y = true -> met o' c y' = true.
+Lemma met_mono e c0 o o' j c y y' : ole e c0 o o' -> oinst_le e c0 j y y' -> met o c y = true -> met o' c y' = true.
 Proof.
-  intros OL LE. pose proof (endst_mono _ _ _ _ LE) as EM.
-  destruct LE as (Hn & _ & M1 & M2 & M3 & M4 & M5 & M6). destruct c; cbn; auto.
+  intros OL LE. pose proof (endst_mono _ _ _ _ _ LE) as EM.
+  destruct LE as (Hn & _ & _ & _ & M1 & M2 & M3 & M4 & M5 & M6 & _). destruct c; cbn; auto.
   - rewrite Hn. eapply on_get_ready_mono; eauto.
   - intros H. apply orb_true_iff in H. destruct H as [H|H]; [apply orb_true_iff in H; destruct H as [H|H]|].
     + rewrite (M4 H). reflexivity.
@@ -107,217 +114,262 @@ Proof.
       exfalso. apply EM; [discriminate|reflexivity].
 Qed.
 
-Lemma Gate_mono e o o' ix k c : ole e o o' -> Gate o ix k c -> Gate o' ix k c.
+Lemma olderR_inv e o o' k b : ole e (o_cnt o) o o' -> b <= o_cnt o -> olderR o' k b -> olderR o k b.
 Proof.
-  intros OL [G|(j & yo & A & B & C & D)].
-  - left. intros j yo' H Hn. destruct (ole_inv _ _ _ _ _ OL H) as (yo & E & (L1 & L2 & _)).
-    rewrite L2. eapply G; eauto. congruence.
-  - right. destruct (ole_oi _ _ _ OL j yo A) as (yo' & E & L). exists j, yo'.
-    pose proof L as (L1 & L2 & _). repeat split; try congruence. eapply met_mono; eauto.
+  intros OL Hb (j & yo' & A & B & C & D). destruct (ole_inv _ _ _ _ _ _ OL A) as (yo & E & L).
+  destruct L as (L1 & L2 & L3 & _). destruct (L3 B) as [Q|[Q _]]; [|lia].
+  destruct (L2 Q) as [_ Li]. exists j, yo. repeat split; auto; congruence.
+Qed.
+
+Lemma GateN_mono e o o' k c b : ole e (o_cnt o) o o' -> b <= o_cnt o -> GateN o k c b -> GateN o' k c b.
+Proof.
+  intros OL Hb [G|(j & yo & A & B & C & D & E)].
+  - left. intros Q. apply G. eapply olderR_inv; eauto.
+  - right. destruct (ole_oi _ _ _ _ OL j yo A) as (yo' & E' & L). exists j, yo'.
+    pose proof L as (L1 & L2 & _). destruct (L2 B) as [Q1 Q2]. repeat split; try congruence. eapply met_mono; eauto.
+Qed.
+
+Lemma wait_of_app xo l k w : wait_of xo k = Some w -> find (fun w => N.eqb (fst (fst w)) k) (o_waits xo ++ l) = Some w.
+Proof.
+  unfold wait_of. generalize (o_waits xo). intros l0. induction l0 as [|a r IH]; cbn; [discriminate|].
+  destruct (_ =? _)%N; [auto|exact IH].
+Qed.
+
+Lemma wait_of_app_none xo l k : wait_of xo k = None ->
+  find (fun w => N.eqb (fst (fst w)) k) (o_waits xo ++ l) = find (fun w => N.eqb (fst (fst w)) k) l.
+Proof.
+  unfold wait_of. generalize (o_waits xo). intros l0. induction l0 as [|a r IH]; cbn; [reflexivity|].
+  destruct (_ =? _)%N; [discriminate|exact IH].
+Qed.
+
+Lemma wait_of_in xo k w : wait_of xo k = Some w -> In w (o_waits xo).
+Proof. unfold wait_of. intros H. apply find_some in H. apply H. Qed.
+
+Lemma Gate_mono e o o' xo xo' j k c : Oinv o -> ole e (o_cnt o) o o' -> get j (oi o) = Some xo ->
+  oinst_le e (o_cnt o) j xo xo' -> Gate o xo k c -> Gate o' xo' k c.
+Proof.
+  intros HO OL Hxo LE (w & Hw & G). exists w. split.
+  - destruct LE as (_ & _ & _ & _ & _ & _ & _ & _ & _ & _ & (l & El & _)). unfold wait_of. rewrite El. now apply wait_of_app.
+  - destruct w as [[k0 [j0|]] b]; cbn in *.
+    + destruct G as (yo & A & B & C). destruct (ole_oi _ _ _ _ OL j0 yo A) as (yo' & E' & L).
+      exists yo'. pose proof L as (L1 & _). repeat split; try congruence. eapply met_mono; eauto.
+    + eapply GateN_mono; eauto. apply (oi_wb _ HO j xo _ Hxo (wait_of_in _ _ _ Hw)).
 Qed.
 
 Lemma met_same o o1 c y : onm o1 = onm o -> met o1 c y = met o c y.
 Proof. intros E. destruct c; cbn; auto. unfold on_get. now rewrite E. Qed.
 
-Lemma Gate_set o o1 i y0 ix k c : get i (oi o) = None -> oi o1 = set i y0 (oi o) -> onm o1 = onm o ->
-  ix <= o_idx y0 -> Gate o ix k c -> Gate o1 ix k c.
+(* adding a fresh, unregistered instance *)
+Lemma olderR_set o o1 i y0 k b : oi o1 = set i y0 (oi o) -> o_reg y0 = false -> olderR o1 k b -> olderR o k b.
 Proof.
-  intros Hn E1 E2 Hix [G|(j & yo & A & B & C & D)].
-  - left. intros j yo. rewrite E1, get_set. destruct (N.eqb i j); [intros Q; injection Q as <-; lia|apply G].
-  - right. exists j, yo. rewrite E1, get_set. destruct (N.eqb_spec i j); [congruence|].
+  intros E1 Hr (j & yo & A & B & C & D). rewrite E1, get_set in A. destruct (N.eqb i j); [injection A as <-; congruence|].
+  exists j, yo. auto.
+Qed.
+
+Lemma Gate_set o o1 i y0 xo k c : get i (oi o) = None -> oi o1 = set i y0 (oi o) -> onm o1 = onm o -> o_reg y0 = false ->
+  Gate o xo k c -> Gate o1 xo k c.
+Proof.
+  intros Hn E1 E2 Hr (w & Hw & G). exists w. split; [exact Hw|]. destruct w as [[k0 [j0|]] b]; cbn in *.
+  - destruct G as (yo & A & B & C). exists yo. rewrite E1, get_set. destruct (N.eqb_spec i j0); [congruence|].
     repeat split; auto. now rewrite (met_same _ _ _ _ E2).
+  - destruct G as [G|(j & yo & A & B & C & D & E)].
+    + left. intros Q. apply G. eapply olderR_set; eauto.
+    + right. exists j, yo. rewrite E1, get_set. destruct (N.eqb_spec i j); [congruence|].
+      repeat split; auto. now rewrite (met_same _ _ _ _ E2).
 Qed.
 
 Record Rg (s : sys) (o : obs) : Prop := mkRg {
+  (* every dependency that is no longer in the todo list satisfies the monitor's check *)
   rg_gate : forall i x xo l, get i (insts s) = Some x -> get i (oi o) = Some xo -> remaining (pc x) = Some l ->
-            forall k c, In (k, c) (deps (cf x)) -> ~ In k l -> Gate o (o_idx xo) k c;
+            forall k c, In (k, c) (deps (cf x)) -> ~ In k l -> Gate o xo k c;
+  (* the observer has no record yet for the names still to be looked up ... *)
+  rg_todo : forall i x xo todo, get i (insts s) = Some x -> get i (oi o) = Some xo ->
+            (pc x = IDeps todo \/ exists k c j, pc x = IBlocked k c j todo) ->
+            forall k, In k todo -> wait_of xo k = None;
+  (* ... and records the instance a blocked goroutine waits on *)
   rg_blocked : forall i x xo k c j todo, get i (insts s) = Some x -> get i (oi o) = Some xo -> pc x = IBlocked k c j todo ->
-            (exists yo, get j (oi o) = Some yo /\ o_nm yo = k /\ o_idx yo < o_idx xo) \/
-            (forall j' yo, get j' (oi o) = Some yo -> o_nm yo = k -> ~ o_idx yo < o_idx xo) }.
+            exists k0 b, wait_of xo k = Some (k0, Some j, b) }.
 
-(* transport of the two clauses of one instance along the observer *)
-Lemma blocked_mono e o o' j k ix :
-  ole e o o' ->
-  (exists yo, get j (oi o) = Some yo /\ o_nm yo = k /\ o_idx yo < ix) \/
-  (forall j' yo, get j' (oi o) = Some yo -> o_nm yo = k -> ~ o_idx yo < ix) ->
-  (exists yo, get j (oi o') = Some yo /\ o_nm yo = k /\ o_idx yo < ix) \/
-  (forall j' yo, get j' (oi o') = Some yo -> o_nm yo = k -> ~ o_idx yo < ix).
-Proof.
-  intros OL [(yo & A & B & C)|G].
-  - left. destruct (ole_oi _ _ _ OL j yo A) as (yo' & E & (L1 & L2 & _)). exists yo'. repeat split; congruence.
-  - right. intros j' yo' H Hn. destruct (ole_inv _ _ _ _ _ OL H) as (yo & E & (L1 & L2 & _)).
-    rewrite L2. eapply G; eauto. congruence.
-Qed.
-
-(* generic update of Rg: all instances except i keep their program counter class *)
-Lemma Rg_upd e s s' o o' i : Rg s o -> ole e o o' ->
+(* generic update of Rg: the observer's wait records of all instances except i are untouched, and all instances
+   except i keep their program counter class *)
+Lemma Rg_upd e s s' o o' i : Rg s o -> Oinv o -> ole e (o_cnt o) o o' ->
   (forall j, j <> i -> match get j (insts s) with
                         | Some x => exists x', get j (insts s') = Some x' /\ cf x' = cf x /\ pc_ok x x'
                         | None => get j (insts s') = None end) ->
+  (forall j y y', j <> i -> get j (oi o) = Some y -> get j (oi o') = Some y' -> o_waits y' = o_waits y) ->
   (forall x' xo' l, get i (insts s') = Some x' -> get i (oi o') = Some xo' -> remaining (pc x') = Some l ->
-      forall k c, In (k, c) (deps (cf x')) -> ~ In k l -> Gate o' (o_idx xo') k c) ->
+      forall k c, In (k, c) (deps (cf x')) -> ~ In k l -> Gate o' xo' k c) ->
+  (forall x' xo' todo, get i (insts s') = Some x' -> get i (oi o') = Some xo' ->
+      (pc x' = IDeps todo \/ exists k c j, pc x' = IBlocked k c j todo) -> forall k, In k todo -> wait_of xo' k = None) ->
   (forall x' xo' k c j todo, get i (insts s') = Some x' -> get i (oi o') = Some xo' -> pc x' = IBlocked k c j todo ->
-      (exists yo, get j (oi o') = Some yo /\ o_nm yo = k /\ o_idx yo < o_idx xo') \/
-      (forall j' yo, get j' (oi o') = Some yo -> o_nm yo = k -> ~ o_idx yo < o_idx xo')) ->
+      exists k0 b, wait_of xo' k = Some (k0, Some j, b)) ->
   Rg s' o'.
 Proof.
-  intros [G1 G2] OL Ho H1 H2. constructor.
-  - intros j x' xo' l Hx' Hxo' Hr k c Hin Hnl. destruct (N.eqb_spec j i); [subst; eapply H1; eauto|].
-    specialize (Ho j n). destruct (get j (insts s)) as [x|] eqn:Ex; [|congruence].
+  intros [G1 G2 G3] HO OL Ho Hw H1 H2 H3.
+  assert (Hj : forall j x' xo', j <> i -> get j (insts s') = Some x' -> get j (oi o') = Some xo' ->
+            exists x xo, get j (insts s) = Some x /\ get j (oi o) = Some xo /\ cf x' = cf x /\ pc_ok x x' /\
+                         oinst_le e (o_cnt o) j xo xo' /\ o_waits xo' = o_waits xo).
+  { intros j x' xo' n Hx' Hxo'. specialize (Ho j n). destruct (get j (insts s)) as [x|] eqn:Ex; [|congruence].
     destruct Ho as (x2 & E2 & Hc & Hp). assert (x2 = x') by congruence. subst x2.
-    destruct (ole_inv _ _ _ _ _ OL Hxo') as (xo & Exo & LE). pose proof LE as (_ & Li & _). rewrite Li.
-    eapply Gate_mono; [exact OL|]. rewrite Hc in Hin. destruct Hp as [Hp|(P1 & P2 & _)].
+    destruct (ole_inv _ _ _ _ _ _ OL Hxo') as (xo & Exo & LE). exists x, xo.
+    split; [reflexivity|]. split; [exact Exo|]. split; [exact Hc|]. split; [exact Hp|]. split; [exact LE|]. eapply Hw; eauto. }
+  constructor.
+  - intros j x' xo' l Hx' Hxo' Hr k c Hin Hnl. destruct (N.eqb_spec j i); [subst; eapply H1; eauto|].
+    destruct (Hj j x' xo' n Hx' Hxo') as (x & xo & Ex & Exo & Hc & Hp & LE & _).
+    eapply Gate_mono; eauto. rewrite Hc in Hin. destruct Hp as [Hp|(P1 & P2 & _)].
     + rewrite Hp in Hr. eapply G1; eauto.
     + assert (l = []) by (eapply plain_remaining; eauto). subst l. eapply (G1 j x xo []); eauto.
-  - intros j x' xo' k c j0 todo Hx' Hxo' Hp. destruct (N.eqb_spec j i); [subst; eapply H2; eauto|].
-    specialize (Ho j n). destruct (get j (insts s)) as [x|] eqn:Ex; [|congruence].
-    destruct Ho as (x2 & E2 & Hc & Hq). assert (x2 = x') by congruence. subst x2.
-    destruct (ole_inv _ _ _ _ _ OL Hxo') as (xo & Exo & LE). pose proof LE as (_ & Li & _). rewrite Li.
-    destruct Hq as [Hq|(P1 & _)]; [|rewrite Hp in P1; discriminate].
-    rewrite Hq in Hp. eapply blocked_mono; [exact OL|]. eapply G2; eauto.
+  - intros j x' xo' todo Hx' Hxo' Hp k Hk. destruct (N.eqb_spec j i); [subst; eapply H2; eauto|].
+    destruct (Hj j x' xo' n Hx' Hxo') as (x & xo & Ex & Exo & Hc & Hq & LE & Hwq).
+    unfold wait_of. rewrite Hwq. destruct Hq as [Hq|(P1 & _)].
+    + rewrite Hq in Hp. eapply G2; eauto.
+    + exfalso. destruct Hp as [Hp|(k1 & c1 & j1 & Hp)]; rewrite Hp in P1; discriminate.
+  - intros j x' xo' k c j0 todo Hx' Hxo' Hp. destruct (N.eqb_spec j i); [subst; eapply H3; eauto|].
+    destruct (Hj j x' xo' n Hx' Hxo') as (x & xo & Ex & Exo & Hc & Hq & LE & Hwq).
+    unfold wait_of. rewrite Hwq. destruct Hq as [Hq|(P1 & _)]; [|rewrite Hp in P1; discriminate].
+    rewrite Hq in Hp. eapply G3; eauto.
 Qed.
 
-Lemma Rg_insts e s s' o o' : Rg s o -> ole e o o' ->
+(* steps that are not a dep_wait: no wait record changes *)
+Lemma waits_same e c o o' j y y' : ole e c o o' -> (forall k f, e <> EDepWait k f) ->
+  get j (oi o) = Some y -> get j (oi o') = Some y' -> o_waits y' = o_waits y.
+Proof.
+  intros OL Hne Hy Hy'. destruct (ole_oi _ _ _ _ OL j y Hy) as (y2 & E & L). assert (y2 = y') by congruence. subst.
+  destruct L as (_ & _ & _ & _ & _ & _ & _ & _ & _ & _ & (l & El & [->|(k & f & Q)])); [|exfalso; eapply Hne; eauto].
+  now rewrite app_nil_r in El.
+Qed.
+
+Lemma Rg_insts e s s' o o' : Rg s o -> Oinv o -> ole e (o_cnt o) o o' -> (forall k f, e <> EDepWait k f) ->
   (forall j, match get j (insts s) with
              | Some x => exists x', get j (insts s') = Some x' /\ cf x' = cf x /\ pc_ok x x'
              | None => get j (insts s') = None end) -> Rg s' o'.
 Proof.
-  intros G OL Ho. pose proof G as [G1 G2].
+  intros G HO OL Hne Ho. pose proof G as [G1 G2 G3].
+  assert (Hj : forall j x' xo', get j (insts s') = Some x' -> get j (oi o') = Some xo' ->
+            exists x xo, get j (insts s) = Some x /\ get j (oi o) = Some xo /\ cf x' = cf x /\ pc_ok x x' /\
+                         oinst_le e (o_cnt o) j xo xo' /\ o_waits xo' = o_waits xo).
+  { intros j x' xo' Hx' Hxo'. specialize (Ho j). destruct (get j (insts s)) as [x|] eqn:Ex; [|congruence].
+    destruct Ho as (x2 & E2 & Hc & Hp). assert (x2 = x') by congruence. subst x2.
+    destruct (ole_inv _ _ _ _ _ _ OL Hxo') as (xo & Exo & LE). exists x, xo.
+    split; [reflexivity|]. split; [exact Exo|]. split; [exact Hc|]. split; [exact Hp|]. split; [exact LE|].
+    eapply waits_same; eauto. }
   constructor.
   - intros j x' xo' l Hx' Hxo' Hr k c Hin Hnl.
-    specialize (Ho j). destruct (get j (insts s)) as [x|] eqn:Ex; [|congruence].
-    destruct Ho as (x2 & E2 & Hc & Hp). assert (x2 = x') by congruence. subst x2.
-    destruct (ole_inv _ _ _ _ _ OL Hxo') as (xo & Exo & LE). pose proof LE as (_ & Li & _). rewrite Li.
-    eapply Gate_mono; [exact OL|]. rewrite Hc in Hin. destruct Hp as [Hp|(P1 & P2 & _)].
+    destruct (Hj j x' xo' Hx' Hxo') as (x & xo & Ex & Exo & Hc & Hp & LE & _).
+    eapply Gate_mono; eauto. rewrite Hc in Hin. destruct Hp as [Hp|(P1 & P2 & _)].
     + rewrite Hp in Hr. eapply G1; eauto.
     + assert (l = []) by (eapply plain_remaining; eauto). subst l. eapply (G1 j x xo []); eauto.
+  - intros j x' xo' todo Hx' Hxo' Hp k Hk.
+    destruct (Hj j x' xo' Hx' Hxo') as (x & xo & Ex & Exo & Hc & Hq & LE & Hwq).
+    unfold wait_of. rewrite Hwq. destruct Hq as [Hq|(P1 & _)].
+    + rewrite Hq in Hp. eapply G2; eauto.
+    + exfalso. destruct Hp as [Hp|(k1 & c1 & j1 & Hp)]; rewrite Hp in P1; discriminate.
   - intros j x' xo' k c j0 todo Hx' Hxo' Hp.
-    specialize (Ho j). destruct (get j (insts s)) as [x|] eqn:Ex; [|congruence].
-    destruct Ho as (x2 & E2 & Hc & Hq). assert (x2 = x') by congruence. subst x2.
-    destruct (ole_inv _ _ _ _ _ OL Hxo') as (xo & Exo & LE). pose proof LE as (_ & Li & _). rewrite Li.
-    destruct Hq as [Hq|(P1 & _)]; [|rewrite Hp in P1; discriminate].
-    rewrite Hq in Hp. eapply blocked_mono; [exact OL|]. eapply G2; eauto.
+    destruct (Hj j x' xo' Hx' Hxo') as (x & xo & Ex & Exo & Hc & Hq & LE & Hwq).
+    unfold wait_of. rewrite Hwq. destruct Hq as [Hq|(P1 & _)]; [|rewrite Hp in P1; discriminate].
+    rewrite Hq in Hp. eapply G3; eauto.
 Qed.
 
-Lemma Rg_frame e s s' o o' : Rg s o -> frM s s' -> ole e o o' -> Rg s' o'.
+Lemma Rg_frame e s s' o o' : Rg s o -> Oinv o -> frM s s' -> ole e (o_cnt o) o o' -> (forall k f, e <> EDepWait k f) -> Rg s' o'.
 Proof.
-  intros G F OL. eapply Rg_insts; eauto.
+  intros G HO F OL Hne. eapply Rg_insts; eauto.
   intros j. pose proof (fm_insts _ _ F j) as A. destruct (get j (insts s)) as [x|]; [|exact A].
   destruct A as (x' & ? & ? & ? & ? & ?). eauto.
 Qed.
 
-
-Lemma Rg_new s o o1 i n c y0 : Rg s o -> Oinv o -> get i (oi o) = None -> oi o1 = set i y0 (oi o) -> onm o1 = onm o ->
-  o_idx y0 = o_cnt o ->
+Lemma Rg_new s o o1 i n c y0 : Rg s o -> get i (oi o) = None -> oi o1 = set i y0 (oi o) -> onm o1 = onm o ->
+  o_reg y0 = false -> o_waits y0 = [] ->
   Rg (s <| insts := set i (new_inst n c) (insts s) |>) o1.
 Proof.
-  intros [G1 G2] [_ OI] Hn E1 E2 Hy. constructor; cbn.
+  intros [G1 G2 G3] Hn E1 E2 Hr Hw. constructor; cbn.
   - intros j x xo l. rewrite E1, !get_set. destruct (N.eqb i j).
     + intros Q _. injection Q as <-. cbn. intros Q. injection Q as <-. intros k c0 Hin Hnl. exfalso. apply Hnl.
       change k with (fst (k, c0)). now apply in_map.
-    + intros Hx Hxo Hr k c0 Hin Hnl. eapply Gate_set; eauto. specialize (OI j xo Hxo). lia.
+    + intros Hx Hxo Hq k c0 Hin Hnl. eapply Gate_set; eauto.
+  - intros j x xo todo. rewrite E1, !get_set. destruct (N.eqb i j).
+    + intros _ Q _ k _. injection Q as <-. unfold wait_of. now rewrite Hw.
+    + apply G2.
   - intros j x xo k c0 j0 todo. rewrite E1, !get_set. destruct (N.eqb i j).
     + intros Q _. injection Q as <-. cbn. discriminate.
-    + intros Hx Hxo Hp. specialize (OI j xo Hxo). destruct (G2 _ _ _ _ _ _ _ Hx Hxo Hp) as [(yo & A & B & C)|G].
-      * left. exists yo. destruct (N.eqb_spec i j0); [congruence|auto].
-      * right. intros j' yo. rewrite get_set. destruct (N.eqb i j'); [intros Q; injection Q as <-; lia|apply G].
+    + apply G3.
 Qed.
 
 (* ---- the registries and the lookup state machine ---------------------------------------------------------------- *)
 Definition registered (s : sys) (k : name) : Prop := get k (running s) <> None \/ get k (donereg s) <> None.
-Definition older (o : obs) (k : name) (ix : nat) : Prop :=
-  exists j yo, get j (oi o) = Some yo /\ o_nm yo = k /\ o_idx yo < ix.
-(* what a goroutine with dependency names D and creation index ix knows from its lookups *)
-Definition lk_fact (s : sys) (o : obs) (D : list name) (ix : nat) (l : lookup_st) : Prop :=
+
+(* what a thread knows from its lookups, in terms of the registration counter the observer recorded at its
+   getRunningProcess miss *)
+Definition lkf (s : sys) (o : obs) (th : tid) (l : lookup_st) : Prop :=
   match l with
-  | LReg k None => In k D -> older o k ix -> get k (donereg s) <> None
-  | LDone2 k None => In k D -> ~ older o k ix
+  | LReg k None => exists b, get th (o_lk o) = Some (k, b) /\ (olderR o k b -> get k (donereg s) <> None)
+  | LDone2 k None => exists b, get th (o_lk o) = Some (k, b) /\ ~ olderR o k b
   | _ => True
   end.
-Definition dnames (x : inst) : list name := map fst (deps (cf x)).
 
-Record Rk (s : sys) (o : obs) (g : gst) : Prop := mkRk {
-  (* every created instance is still unregistered, or its name is in one of the two registries *)
-  rk_reg : forall j yo, get j (oi o) = Some yo -> In j (g_unregd g) \/ registered s (o_nm yo);
-  (* the instances of its dependencies that were created before an instance were registered by then *)
-  rk_dep : forall i x xo, get i (insts s) = Some x -> get i (oi o) = Some xo ->
-           forall k, In k (dnames x) -> older o k (o_idx xo) -> registered s k;
-  rk_th : forall th i, get th (thinst s) = Some i -> get i (oi o) <> None;
-  rk_lk : forall th i x xo, get th (thinst s) = Some i -> get i (insts s) = Some x -> get i (oi o) = Some xo ->
-          lk_fact s o (dnames x) (o_idx xo) (lk (get_thread s th)) }.
+Record Rk (s : sys) (o : obs) : Prop := mkRk {
+  (* every registered instance: its name is in the running registry or in the done registry *)
+  rk_reg : forall j yo, get j (oi o) = Some yo -> o_reg yo = true -> registered s (o_nm yo);
+  rk_lk : forall th, lkf s o th (lk (get_thread s th)) }.
 
-Lemma older_inv e o o' k ix : ole e o o' -> older o' k ix -> older o k ix.
-Proof.
-  intros OL (j & yo' & A & B & C). destruct (ole_inv _ _ _ _ _ OL A) as (yo & E & (L1 & L2 & _)).
-  exists j, yo. repeat split; congruence.
-Qed.
-
-Lemma lk_plain_fact s o D ix l : lk_plain l -> lk_fact s o D ix l.
+Lemma lk_plain_fact s o th l : lk_plain l -> lkf s o th l.
 Proof. destruct l as [|k [j|]|k|k [j|]|k [j|]]; cbn; tauto. Qed.
 
-Lemma lk_fact_mono e s s' o o' D ix l : ole e o o' ->
+Lemma lkf_mono e s s' o o' th l : Oinv o -> ole e (o_cnt o) o o' ->
+  get th (o_lk o') = get th (o_lk o) ->
   (forall k, get k (donereg s) <> None -> get k (donereg s') <> None) ->
-  lk_fact s o D ix l -> lk_fact s' o' D ix l.
+  lkf s o th l -> lkf s' o' th l.
 Proof.
-  intros OL Hd. destruct l as [|k [j|]|k|k [j|]|k [j|]]; cbn; auto.
-  - intros H Hin Q. apply Hd, H; [exact Hin|]. eapply older_inv; eauto.
-  - intros H Hin Q. apply H; [exact Hin|]. eapply older_inv; eauto.
+  intros HO OL El Hd. destruct l as [|k [j|]|k|k [j|]|k [j|]]; cbn; auto; intros (b & A & B); exists b; rewrite El;
+  (split; [exact A|]); pose proof (oi_lk _ HO th k b A) as Hb.
+  - intros Q. apply Hd, B. eapply olderR_inv; eauto.
+  - intros Q. apply B. eapply olderR_inv; eauto.
 Qed.
 
-Lemma Rk_gen e s s' o o' g g' : Rk s o g -> ole e o o' ->
-  (forall i x', get i (insts s') = Some x' -> exists x, get i (insts s) = Some x /\ cf x' = cf x) ->
-  (forall j yo, In j (g_unregd g) -> get j (oi o) = Some yo -> In j (g_unregd g') \/ registered s' (o_nm yo)) ->
+Lemma Rk_gen e s s' o o' : Rk s o -> Oinv o -> ole e (o_cnt o) o o' ->
+  (forall j yo', get j (oi o') = Some yo' -> o_reg yo' = true ->
+      (exists yo, get j (oi o) = Some yo /\ o_reg yo = true) \/ registered s' (o_nm yo')) ->
   (forall k, registered s k -> registered s' k) ->
   (forall k, get k (donereg s) <> None -> get k (donereg s') <> None) ->
-  (forall th i, get th (thinst s') = Some i ->
-      (get th (thinst s) = Some i /\ lk (get_thread s' th) = lk (get_thread s th)) \/
-      (get i (oi o') <> None /\ forall x' xo', get i (insts s') = Some x' -> get i (oi o') = Some xo' ->
-                                 lk_fact s' o' (dnames x') (o_idx xo') (lk (get_thread s' th)))) ->
-  Rk s' o' g'.
+  (forall th, (lk (get_thread s' th) = lk (get_thread s th) /\ get th (o_lk o') = get th (o_lk o)) \/
+              lkf s' o' th (lk (get_thread s' th))) ->
+  Rk s' o'.
 Proof.
-  intros [K1 K2 K3 K4] OL Hcf HU Hr Hd Ht. constructor.
-  - intros j yo' H. destruct (ole_inv _ _ _ _ _ OL H) as (yo & E & (L1 & _)). rewrite L1.
-    destruct (K1 j yo E) as [Q|Q]; [eapply HU; eauto|right; auto].
-  - intros i x' xo' Hx' Hxo' k Hk Ho. destruct (Hcf i x' Hx') as (x & Hx & Hc).
-    destruct (ole_inv _ _ _ _ _ OL Hxo') as (xo & E & (_ & L2 & _)). rewrite L2 in Ho.
-    apply Hr. eapply (K2 i x xo); eauto; [unfold dnames in *; congruence|eapply older_inv; eauto].
-  - intros th i Q. destruct (Ht th i Q) as [[Q1 _]|[Q1 _]]; [|exact Q1].
-    specialize (K3 th i Q1). destruct (get i (oi o)) as [xo|] eqn:E; [|congruence].
-    destruct (ole_oi _ _ _ OL i xo E) as (y' & E' & _). congruence.
-  - intros th i x' xo' Q Hx' Hxo'. destruct (Ht th i Q) as [[Q1 Q2]|[_ Q1]]; [|now apply Q1].
-    destruct (Hcf i x' Hx') as (x & Hx & Hc).
-    destruct (ole_inv _ _ _ _ _ OL Hxo') as (xo & E & (_ & L2 & _)). rewrite Q2, L2.
-    unfold dnames. rewrite Hc. eapply lk_fact_mono; eauto.
+  intros [K1 K2] HO OL Hnew Hr Hd Ht. constructor.
+  - intros j yo' H Hreg. destruct (Hnew j yo' H Hreg) as [(yo & E & Q)|Q]; [|exact Q].
+    destruct (ole_oi _ _ _ _ OL j yo E) as (y2 & E2 & (L1 & _)). assert (y2 = yo') by congruence. subst y2.
+    rewrite L1. apply Hr. eapply K1; eauto.
+  - intros th. destruct (Ht th) as [[Q1 Q2]|Q]; [|exact Q]. rewrite Q1. eapply lkf_mono; eauto.
 Qed.
 
-Lemma Rk_new cs s o o1 g i n c y0 th : Rk s o g -> Oinv o -> get i (oi o) = None -> get i (insts s) = None ->
-  oi o1 = set i y0 (oi o) -> o_idx y0 = o_cnt o -> o_cnt o1 = S (o_cnt o) ->
-  conf_of cs n = c -> dep_unregistered cs o g n = false ->
-  Rk (s <| insts := set i (new_inst n c) (insts s) |>) o1 (g_step cs o g (th, ENewInst i n)).
+(* a step that is neither a registration nor a running-registry miss *)
+Lemma reg_old e c o o' j yo' : ole e c o o' -> (forall i n, e <> ERegAdd i n) ->
+  get j (oi o') = Some yo' -> o_reg yo' = true -> exists yo, get j (oi o) = Some yo /\ o_reg yo = true.
 Proof.
-  intros [K1 K2 K3 K4] [_ OI] Hn Hni E1 Hy Hc Hcf Hfl.
-  assert (Ho : forall k ix, ix <= o_cnt o -> older o1 k ix -> older o k ix).
-  { intros k ix Hix (j' & yo & A & B & C). rewrite E1, get_set in A. destruct (N.eqb i j'); [injection A as <-; lia|].
-    exists j', yo. auto. }
-  constructor; cbn.
-  - intros j yo. rewrite E1, get_set. destruct (N.eqb_spec i j); [subst; auto|].
-    intros H. destruct (K1 j yo H) as [Q|Q]; [left; now right|right; exact Q].
-  - intros j x xo. rewrite E1, !get_set. destruct (N.eqb_spec i j).
-    + subst j. intros Q1 Q2. injection Q1 as <-. injection Q2 as <-. unfold dnames. cbn [cf new_inst].
-      intros k Hk Hol. rewrite Hy in Hol. apply (Ho k _ (le_n _)) in Hol. destruct Hol as (j & yo & A & B & C).
-      destruct (K1 j yo A) as [Q|Q]; [exfalso|now rewrite B in Q].
-      unfold dep_unregistered in Hfl. rewrite Hcf in Hfl.
-      assert (existsb (fun j0 => memN (o_nm (oi_get o j0)) (map fst (deps c))) (g_unregd g) = true); [|congruence].
-      apply existsb_exists. exists j. split; [exact Q|]. unfold oi_get. rewrite A, B. now apply memN_In.
-    + intros Hx Hxo k Hk Hol. eapply K2; eauto. apply Ho; [|exact Hol]. specialize (OI j xo Hxo). lia.
-  - intros t j Q. rewrite E1, get_set. destruct (N.eqb i j); [discriminate|eapply K3; eauto].
-  - intros t j x xo Q. rewrite E1, !get_set. destruct (N.eqb_spec i j).
-    + subst j. exfalso. eapply K3; eauto.
-    + intros Hx Hxo. specialize (K4 t j x xo Q Hx Hxo). specialize (OI j xo Hxo).
-      change (get_thread (s <| insts := set i (new_inst n c) (insts s) |>) t) with (get_thread s t).
-      destruct (lk (get_thread s t)) as [|k [j'|]|k|k [j'|]|k [j'|]]; cbn in *; auto.
-      * intros Hin Hol. apply K4; [exact Hin|]. apply Ho; [lia|exact Hol].
-      * intros Hin Hol. apply K4; [exact Hin|]. apply Ho; [lia|exact Hol].
+  intros OL Hne H Hr. destruct (ole_inv _ _ _ _ _ _ OL H) as (yo & E & (_ & _ & L3 & _)).
+  destruct (L3 Hr) as [Q|(_ & n & Q)]; [eauto|exfalso; eapply Hne; eauto].
+Qed.
+
+Lemma Rk_frame e s s' o o' : Rk s o -> Oinv o -> frM2 s s' -> ole e (o_cnt o) o o' ->
+  (forall i n, e <> ERegAdd i n) -> (forall n, e <> ERegGet n None) -> Rk s' o'.
+Proof.
+  intros K HO F OL N1 N2. eapply Rk_gen; eauto.
+  - intros j yo' H Hr. left. eapply reg_old; eauto.
+  - intros k. unfold registered. now rewrite (f2_running _ _ F), (f2_donereg _ _ F).
+  - intros k. now rewrite (f2_donereg _ _ F).
+  - intros th. destruct (f2_lk _ _ F th) as [E|E]; [left; split; [exact E|]|right; now apply lk_plain_fact].
+    now rewrite (ole_lk _ _ _ _ OL N2).
+Qed.
+
+Lemma Rk_new s o o1 i n c y0 : Rk s o -> oi o1 = set i y0 (oi o) -> o_reg y0 = false -> o_lk o1 = o_lk o ->
+  Rk (s <| insts := set i (new_inst n c) (insts s) |>) o1.
+Proof.
+  intros [K1 K2] E1 Hr El. constructor; cbn.
+  - intros j yo. rewrite E1, get_set. destruct (N.eqb i j); [intros Q; injection Q as <-; congruence|apply K1].
+  - intros th. change (get_thread (s <| insts := set i (new_inst n c) (insts s) |>) th) with (get_thread s th).
+    specialize (K2 th). destruct (lk (get_thread s th)) as [|k [j'|]|k|k [j'|]|k [j'|]]; cbn in *; auto;
+    destruct K2 as (b & A & B); exists b; rewrite El; (split; [exact A|]).
+    + intros Q. apply B. eapply olderR_set; eauto.
+    + intros Q. apply B. eapply olderR_set; eauto.
 Qed.
 
 (* ---- well-formed configurations: dependency names are unique per process ---------------------------------------- *)
@@ -337,46 +389,30 @@ Proof.
   - destruct Hin as [Q|Q]; [congruence|]. now apply IH.
 Qed.
 
-Lemma g_unregd_same cs o g th e : (forall i n, e <> ENewInst i n) -> (forall i n, e <> ERegAdd i n) ->
-  g_unregd (g_step cs o g (th, e)) = g_unregd g.
-Proof.
-  intros N1 N2. unfold g_step. destruct e; cbn; try reflexivity;
-  try (exfalso; eapply N1; reflexivity); try (exfalso; eapply N2; reflexivity).
-  destruct found; [|reflexivity]. destruct (get th (o_th o)); reflexivity.
-Qed.
-
-(* frames give the three relations *)
-Lemma Rk_frame e s s' o o' g g' : Rk s o g -> frM2 s s' -> ole e o o' -> g_unregd g' = g_unregd g -> Rk s' o' g'.
-Proof.
-  intros K F OL Hp. pose proof K as [K1 K2 K3 K4].
-  eapply Rk_gen; eauto.
-  - intros i x' Hx'. destruct (f2_inv _ _ _ _ F Hx') as (x & Hx & _ & Hc & _). eauto.
-  - intros j yo Q _. left. now rewrite Hp.
-  - intros k. unfold registered. now rewrite (f2_running _ _ F), (f2_donereg _ _ F).
-  - intros k. now rewrite (f2_donereg _ _ F).
-  - intros th i. rewrite (f2_thinst _ _ F). intros Q. destruct (f2_lk _ _ F th) as [E|E]; [left; auto|right].
-    specialize (K3 th i Q). destruct (get i (oi o)) as [xo|] eqn:Exo; [|congruence].
-    destruct (ole_oi _ _ _ OL i xo Exo) as (y' & E' & _). split; [congruence|].
-    intros x' xo' _ _. now apply lk_plain_fact.
-Qed.
 
 (* the creation stages (Model.stage) are invisible to the three relations *)
 Lemma Rl_stage s o f : Rl s o -> Rl (s <| stage := f |>) o.
 Proof. intros [L1 L2 L3 L4]. constructor; auto. Qed.
 Lemma Rg_stage s o f : Rg s o -> Rg (s <| stage := f |>) o.
-Proof. intros [G1 G2]. constructor; auto. Qed.
-Lemma Rk_stage s o g f : Rk s o g -> Rk (s <| stage := f |>) o g.
-Proof. intros [K1 K2 K3 K4]. constructor; auto. Qed.
+Proof. intros [G1 G2 G3]. constructor; auto. Qed.
+Lemma Rk_stage s o f : Rk s o -> Rk (s <| stage := f |>) o.
+Proof. intros [K1 K2]. constructor; auto. Qed.
+
+(* events after which the observer's registration data and wait records are as before *)
+Definition plain_ev (e : event) : bool :=
+  match e with ENewInst _ _ | ERegAdd _ _ | ERegGet _ None | EDepWait _ _ => false | _ => true end.
+Definition NP (e : event) : Prop :=
+  (forall i n, e <> ERegAdd i n) /\ (forall n, e <> ERegGet n None) /\ (forall k f, e <> EDepWait k f).
 
 Section Main.
 Context (cs : amap pconf).
 
-Definition Rest (s : sys) (o : obs) (g : gst) : Prop := Rl s o /\ Rg s o /\ Rk s o g.
+Definition Rest (s : sys) (o : obs) (g : gst) : Prop := Rl s o /\ Rg s o /\ Rk s o.
 
-Lemma rest_frame e s s' o o' g g' : Rest s o g -> frL o' s s' -> frM s s' -> ole e o o' ->
-  g_unregd g' = g_unregd g -> Rest s' o' g'.
+Lemma rest_frame e s s' o o' g g' : Rest s o g -> Oinv o -> frL o' s s' -> frM s s' -> ole e (o_cnt o) o o' ->
+  NP e -> Rest s' o' g'.
 Proof.
-  intros (L & G & K) FL FM OL Hp. split; [|split]; [eapply Rl_frame|eapply Rg_frame|eapply Rk_frame]; eauto using frM_frM2.
+  intros (L & G & K) HO FL FM OL (N1 & N2 & N3). split; [|split]; [eapply Rl_frame|eapply Rg_frame|eapply Rk_frame]; eauto using frM_frM2.
 Qed.
 
 Lemma rc_oi s o i x : Rc cs s o -> get i (insts s) = Some x ->
@@ -385,90 +421,6 @@ Proof. intros HR Hx. destruct (rc_inst _ _ _ HR i x Hx) as (xo & A & B & C & _).
 
 Lemma rc_on s o n c : Rc cs s o -> get n cs = Some c -> exists r, get n (onm o) = Some r.
 Proof. intros HR Hn. destruct (rc_name _ _ _ HR n c Hn) as (v & r & _ & A & _). eauto. Qed.
-
-(* ---- registry events and Rk ---------------------------------------------------------------------------------- *)
-Lemma in_removeN_iff a k l : In a (removeN k l) <-> In a l /\ a <> k.
-Proof.
-  unfold removeN. rewrite filter_In. split; intros [A B]; (split; [exact A|]).
-  - apply negb_true_iff in B. now apply N.eqb_neq.
-  - apply negb_true_iff. now apply N.eqb_neq.
-Qed.
-
-Lemma Rk_regadd e th s o o' g i n x : Rk s o g -> Rc cs s o -> get i (insts s) = Some x -> nm x = n -> ole e o o' ->
-  Rk (s <| running := set n i (running s) |>) o' (g_step cs o g (th, ERegAdd i n)).
-Proof.
-  intros K HR Hx Hn OL. eapply (Rk_gen e s _ o o' g _ K OL); cbn.
-  - intros j x' Hx'. eauto.
-  - intros j yo Q Hy. destruct (N.eqb_spec j i); [|left; apply in_removeN_iff; auto]. subst j. right. left. cbn.
-    destruct (rc_oi _ _ _ _ HR Hx) as (xo & A & B & _). assert (xo = yo) by congruence. subst xo.
-    rewrite B, Hn, get_set_same. discriminate.
-  - intros k [Q|Q]; [left|right; exact Q]. cbn. rewrite get_set. destruct (N.eqb n k); [discriminate|exact Q].
-  - auto.
-  - intros t j Q. left. split; [exact Q|reflexivity].
-Qed.
-
-Lemma Rk_regdel e th s o o' g i x : Rk s o g -> Minv s -> get i (insts s) = Some x -> pc x = IWgDone -> ole e o o' ->
-  Rk (s <| running := del (nm x) (running s) |>) o' (g_step cs o g (th, ERegDel i)).
-Proof.
-  intros K M Hx Hp OL. eapply (Rk_gen e s _ o o' g _ K OL); cbn.
-  - intros j x' Hx'. eauto.
-  - intros j yo Q _. now left.
-  - intros k [Q|Q]; [|right; exact Q]. destruct (N.eqb_spec (nm x) k).
-    + subst k. right. cbn. eapply (mi_added _ M); eauto. eapply (mi_late _ M); eauto. now rewrite Hp.
-    + left. cbn. now rewrite get_del_other.
-  - auto.
-  - intros t j Q. left. split; [exact Q|reflexivity].
-Qed.
-
-Lemma Rk_doneadd e th s o o' g i x : Rk s o g -> get i (insts s) = Some x -> ole e o o' ->
-  Rk (upd_inst i (fun x => x <| d_added := true |>) (s <| donereg := set (nm x) i (donereg s) |>)) o' (g_step cs o g (th, EDoneAdd i)).
-Proof.
-  intros K Hx OL. eapply (Rk_gen e s _ o o' g _ K OL); cbn.
-  - intros j x'. rewrite insts_upd_inst. change (insts (s <| donereg := set (nm x) i (donereg s) |>)) with (insts s).
-    destruct (N.eqb i j); [|eauto]. destruct (get j (insts s)) as [y|]; cbn; [|discriminate].
-    intros Q. injection Q as <-. eauto.
-  - intros j yo Q _. now left.
-  - intros k [Q|Q]; [left|right]; rewrite ?upd_inst_running, ?upd_inst_donereg; cbn; [exact Q|].
-    rewrite get_set. destruct (N.eqb (nm x) k); [discriminate|exact Q].
-  - intros k Q. rewrite upd_inst_donereg. cbn. rewrite get_set. destruct (N.eqb (nm x) k); [discriminate|exact Q].
-  - intros t j. rewrite upd_inst_thinst, get_thread_upd_inst. cbn. intros Q. left. split; [exact Q|reflexivity].
-Qed.
-
-Lemma Rk_set_thread e th0 ev s o o' g t' th : Rk s o g -> ole e o o' ->
-  g_unregd (g_step cs o g (th0, ev)) = g_unregd g ->
-  (forall i x xo, get th (thinst s) = Some i -> get i (insts s) = Some x -> get i (oi o) = Some xo ->
-                  lk_fact s o (dnames x) (o_idx xo) (lk t')) ->
-  Rk (set_thread th t' s) o' (g_step cs o g (th0, ev)).
-Proof.
-  intros K OL Hp Hl. pose proof K as [K1 K2 K3 K4]. eapply (Rk_gen e s _ o o' g _ K OL).
-  - intros j x' Hx'. eauto.
-  - intros j yo Q _. left. now rewrite Hp.
-  - auto.
-  - auto.
-  - intros t j. change (thinst (set_thread th t' s)) with (thinst s).
-    rewrite get_thread_set_thread. intros Q. destruct (N.eqb_spec th t); [subst t; right|left; auto].
-    specialize (K3 th j Q). destruct (get j (oi o)) as [xo|] eqn:Exo; [|congruence].
-    destruct (ole_oi _ _ _ OL j xo Exo) as (y' & E' & (_ & L2 & _)). split; [congruence|].
-    intros x' xo' Hx' Hxo'. assert (y' = xo') by congruence. subst y'. rewrite L2.
-    eapply (lk_fact_mono e s (set_thread th t' s)); eauto.
-Qed.
-
-Lemma Rk_begin e th0 ev s o o' g th i : Rk s o g -> ole e o o' -> get th (threads s) = None -> get i (oi o) <> None ->
-  g_unregd (g_step cs o g (th0, ev)) = g_unregd g ->
-  Rk (s <| thinst := set th i (thinst s) |>) o' (g_step cs o g (th0, ev)).
-Proof.
-  intros K OL Ht Hi Hp. eapply (Rk_gen e s _ o o' g _ K OL).
-  - intros j x' Hx'. eauto.
-  - intros j yo Q _. left. now rewrite Hp.
-  - auto.
-  - auto.
-  - intros t j. cbn. rewrite get_set. destruct (N.eqb_spec th t).
-    + subst t. intros Q. injection Q as <-. right.
-      destruct (get i (oi o)) as [xo|] eqn:Exo; [|congruence].
-      destruct (ole_oi _ _ _ OL i xo Exo) as (y' & E' & _). split; [congruence|].
-      intros x' xo' _ _. unfold get_thread. cbn. rewrite Ht. exact I.
-    + intros Q. left. split; [exact Q|reflexivity].
-Qed.
 
 (* ---- helper facts -------------------------------------------------------------------------------------------- *)
 Lemma met_of_latch s o j y yo c : Rc cs s o -> Refreshed o -> Rl s o ->
@@ -499,24 +451,36 @@ Proof.
   intros Hxo Hne Hf xo' Hxo'. destruct (o_endst xo) as [s1|] eqn:E; [|congruence].
   apply andb_false_iff in Hf. destruct Hf as [Hf|Hf]; apply negb_false_iff in Hf.
   - apply status_eqb_eq in Hf. subst s1. destruct (gain_state cs o th i s0 xo Hxo E) as (y' & A & B). congruence.
-  - assert (OL : ole (EState i s0) o (obs_step cs o (th, EState i s0))) by (apply obs_step_ole; intros; discriminate).
-    destruct (ole_oi _ _ _ OL i xo Hxo) as (y' & A & (_ & _ & M1 & _)). assert (y' = xo') by congruence. subst. auto.
+  - assert (OL : ole (EState i s0) (o_cnt o) o (obs_step cs o (th, EState i s0))) by (apply obs_step_ole; intros; discriminate).
+    destruct (ole_oi _ _ _ _ OL i xo Hxo) as (y' & A & (_ & _ & _ & _ & M1 & _)). assert (y' = xo') by congruence. subst. auto.
+Qed.
+
+
+Lemma in_reg_before o k b y : In y (reg_before o k b) <-> In y (vals (oi o)) /\ o_reg y = true /\ o_nm y = k /\ o_idx y < b.
+Proof.
+  unfold reg_before. rewrite filter_In, !andb_true_iff, N.eqb_eq, Nat.ltb_lt. tauto.
+Qed.
+
+Lemma some_met_of_GateN o k c b : Oinv o -> GateN o k c b -> some_met o c (reg_before o k b) = true.
+Proof.
+  intros HO [G|(j & yo & A & B & C & D & E)]; unfold some_met.
+  - destruct (reg_before o k b) as [|y l] eqn:F; [reflexivity|]. exfalso. apply G.
+    assert (Hy : In y (reg_before o k b)) by (rewrite F; now left). apply in_reg_before in Hy.
+    destruct Hy as (Hy1 & Hy2 & Hy3 & Hy4). destruct (in_vals_get _ _ (oi_nodup _ HO) Hy1) as (j & Hj). exists j, y. auto.
+  - assert (Hy : In yo (reg_before o k b)) by (apply in_reg_before; repeat split; auto; eapply get_in_vals; eauto).
+    destruct (reg_before o k b) as [|y l] eqn:F; [reflexivity|]. apply existsb_exists. exists yo. split; [exact Hy|exact E].
 Qed.
 
 Lemma mon_C01_of_gate o th i xo : Oinv o -> get th (o_th o) = Some i -> get i (oi o) = Some xo ->
-  (forall k c, In (k, c) (deps (conf_of cs (o_nm xo))) -> Gate o (o_idx xo) k c) ->
+  (forall k c, In (k, c) (deps (conf_of cs (o_nm xo))) -> Gate o xo k c) ->
   mon_C01 cs o (th, ELaunch true) = true.
 Proof.
-  intros [Hnd _] Ht Hx Hg. unfold mon_C01. cbn [fst snd ev_inst]. rewrite Ht. unfold oi_get. rewrite Hx.
+  intros HO Ht Hx Hg. unfold mon_C01. cbn [fst snd ev_inst]. rewrite Ht.
+  assert (Eg : oi_get o i = xo) by (unfold oi_get; now rewrite Hx). rewrite Eg.
   apply forallb_forall. intros [k c] Hin. cbn [fst snd].
-  destruct (Hg k c Hin) as [G|(j & yo & A & B & C & D)].
-  - destruct (filter _ _) as [|y l] eqn:F; [reflexivity|]. exfalso.
-    assert (Hy : In y (y :: l)) by now left. rewrite <- F in Hy. apply filter_In in Hy. destruct Hy as [Hy1 Hy2].
-    apply andb_true_iff in Hy2. destruct Hy2 as [Q1 Q2]. apply N.eqb_eq in Q1. apply Nat.ltb_lt in Q2.
-    destruct (in_vals_get _ _ Hnd Hy1) as (j & Hj). eapply G; eauto.
-  - assert (Hy : In yo (filter (fun y => N.eqb (o_nm y) k && Nat.ltb (o_idx y) (o_idx xo)) (vals (oi o)))).
-    { apply filter_In. split; [eapply get_in_vals; eauto|]. apply andb_true_iff. split; [now apply N.eqb_eq|now apply Nat.ltb_lt]. }
-    destruct (filter _ _) as [|y l] eqn:F; [reflexivity|]. apply existsb_exists. exists yo. split; [exact Hy|exact D].
+  destruct (Hg k c Hin) as (w & Hw & G). rewrite Hw. destruct w as [[k0 [j|]] b]; cbn in G.
+  - destruct G as (yo & A & B & C). unfold oi_get. rewrite A. apply andb_true_iff. split; [now apply N.eqb_eq|exact C].
+  - now apply some_met_of_GateN.
 Qed.
 
 Lemma reg_insts_same s th e s' : step_reg s th e = Some s' -> (forall i n, e <> ENewInst i n) ->
@@ -533,27 +497,21 @@ Proof.
   - destruct (get j (insts s)); eauto using pc_ok_refl.
 Qed.
 
-Definition reg_ev (e : event) : bool := match e with ENewInst _ _ | ERegAdd _ _ => true | _ => false end.
 
-Lemma not_reg_ole o th e g : reg_ev e = false ->
-  ole e o (obs_step cs o (th, e)) /\ g_unregd (g_step cs o g (th, e)) = g_unregd g.
+Lemma not_reg_ole o th e : plain_ev e = true -> ole e (o_cnt o) o (obs_step cs o (th, e)) /\ NP e.
 Proof.
-  intros H. split; [apply obs_step_ole|apply g_unregd_same]; intros i n ->; discriminate H.
+  intros H. split; [apply obs_step_ole; intros i n ->; discriminate H|].
+  repeat split; intros; intros ->; discriminate H.
 Qed.
 
-Lemma api_not_reg s th e s' : step_api s th e = Some s' -> reg_ev e = false.
+Lemma api_not_reg s th e s' : step_api s th e = Some s' -> plain_ev e = true.
 Proof. intros H. destruct e; try reflexivity; kind_cases H. Qed.
-Lemma stop_not_reg s th e s' : step_stop s th e = Some s' -> reg_ev e = false.
+Lemma stop_not_reg s th e s' : step_stop s th e = Some s' -> plain_ev e = true.
 Proof. intros H. destruct e; try reflexivity; kind_cases H. Qed.
-Lemma shutdown_not_reg s th e s' : step_shutdown s th e = Some s' -> reg_ev e = false.
+Lemma shutdown_not_reg s th e s' : step_shutdown s th e = Some s' -> plain_ev e = true.
 Proof. intros H. destruct e; try reflexivity; kind_cases H. Qed.
-Lemma env_not_reg s th e s' : step_env s th e = Some s' -> reg_ev e = false.
+Lemma env_not_reg s th e s' : step_env s th e = Some s' -> plain_ev e = true.
 Proof. intros H. destruct e; try reflexivity; kind_cases H. Qed.
-Lemma own_not_reg s th e s' : step_own s th e = Some s' -> reg_ev e = false.
-Proof. intros H. destruct e; try reflexivity; kind_cases H. Qed.
-
-Lemma gbad_parts g : gbad g = false -> g_unreg g = false /\ g_newer g = false /\ g_endov g = false.
-Proof. unfold gbad. destruct (g_unreg g), (g_newer g), (g_endov g); cbn; intros; try discriminate; auto. Qed.
 
 (* the non-own kinds *)
 Lemma core_step_other s o g th e s' :
@@ -563,83 +521,130 @@ Lemma core_step_other s o g th e s' :
   Rest s' (obs_step cs o (th, e)) (g_step cs o g (th, e)).
 Proof.
   intros HR HO M HRest H Hg Hnown. pose proof HRest as (L & G & K).
-  destruct (step_core_kind _ _ _ _ H) as [? ?|i x ? Hx Hth Hthr Hfresh ?|Hk|Hk|Hk|i s0 ? Hk|i s0 b ? Hk|Hk|i ? Hk|Hk|Hk].
-  - (* resume *) subst. destruct (not_reg_ole o th EResume g eq_refl) as [OL Hp].
+  destruct (step_core_kind _ _ _ _ H) as [? ?|i x ? Hx Hth Hthr Hfresh ? ?|Hk|Hk|Hk|i s0 ? Hk|i s0 b ? Hk|Hk|i ? Hk|Hk|Hk].
+  - (* resume *) subst. destruct (not_reg_ole o th EResume eq_refl) as [OL Hp].
     eapply rest_frame; eauto using frL_refl, frM_refl.
-  - (* begin *) subst. destruct (not_reg_ole o th (EBegin i) g eq_refl) as [OL Hp].
-    destruct (rc_oi _ _ _ _ HR Hx) as (xo & Exo & _).
+  - (* begin *) subst. destruct (not_reg_ole o th (EBegin i) eq_refl) as [OL (N1 & N2 & N3)].
     split; [|split].
-    + eapply Rl_frame; [exact L|apply frL_eq; reflexivity|exact OL].
-    + eapply Rg_insts; [exact G|exact OL|]. intros j. cbn. destruct (get j (insts s)); eauto using pc_ok_refl.
-    + apply Rk_stage. eapply Rk_begin; eauto. congruence.
+    + apply Rl_stage. eapply Rl_frame; [exact L|apply frL_eq; reflexivity|exact OL].
+    + apply Rg_stage. eapply Rg_insts; [exact G|exact HO|exact OL|exact N3|]. intros j. cbn. destruct (get j (insts s)); eauto using pc_ok_refl.
+    + apply Rk_stage. eapply Rk_gen; [exact K|exact HO|exact OL| | | |].
+      * intros j yo' Hj Hr. left. eapply reg_old; eauto.
+      * auto.
+      * auto.
+      * intros t. left. split; [reflexivity|]. now rewrite (ole_lk _ _ _ _ OL N2).
   - (* registry *)
     destruct e; try (cbn in Hk; discriminate Hk).
     + (* ENewInst *)
       destruct (reg_newinst _ _ _ _ _ Hk) as (c & Hc & Hi & ->).
       pose proof (rc_noinst _ _ _ HR i Hi) as Hoi.
-      destruct (obs_step_new cs o th i n) as (o1 & OL1 & B1 & B2 & B3).
-      assert (Hfl : dep_unregistered cs o g n = false).
-      { destruct (gbad_parts _ Hg) as (Q & _ & _). cbn in Q. apply orb_false_iff in Q. apply Q. }
-      assert (Hcf : conf_of cs n = c) by (unfold conf_of; rewrite <- (rc_confs _ _ _ HR), Hc; reflexivity).
-      assert (R1 : Rest (s <| insts := set i (new_inst n c) (insts s) |>) o1 (g_step cs o g (th, ENewInst i n))).
+      destruct (obs_step_new cs o th i n) as (o1 & OL1 & B1 & B2 & B3 & B4).
+      assert (R1 : Rest (s <| insts := set i (new_inst n c) (insts s) |>) o1 g).
       { split; [|split].
         - eapply Rl_new; eauto.
         - eapply Rg_new; eauto.
         - eapply Rk_new; eauto. }
+      assert (HO1 : Oinv o1).
+      { destruct HO as [O1 O2 O3 O4]. constructor.
+        - rewrite B1. now apply NoDup_keys_set.
+        - intros j y. rewrite B1, B3, get_set. destruct (N.eqb i j); [intros Q; injection Q as <-; cbn; lia|].
+          intros Q. specialize (O2 j y Q). lia.
+        - intros j y w. rewrite B1, B3, get_set. destruct (N.eqb i j); [intros Q; injection Q as <-; intros []|].
+          intros Q Hw. specialize (O3 j y w Q Hw). lia.
+        - intros t k b. rewrite B4, B3. intros Q. specialize (O4 t k b Q). lia. }
+      pose proof (OL1 (o_cnt o1)) as OL1'.
       destruct R1 as (L1 & G1 & K1). unfold set_stage. split; [|split].
-      * apply Rl_stage. eapply Rl_frame; [exact L1|apply frL_refl|exact OL1].
-      * apply Rg_stage. eapply Rg_frame; [exact G1|apply frM_refl|exact OL1].
-      * apply Rk_stage. eapply Rk_frame; [exact K1|apply frM_frM2, frM_refl|exact OL1|reflexivity].
+      * apply Rl_stage. eapply Rl_frame; [exact L1|apply frL_refl|exact OL1'].
+      * apply Rg_stage. eapply Rg_frame; [exact G1|exact HO1|apply frM_refl|exact OL1'|intros; discriminate].
+      * apply Rk_stage. eapply Rk_frame; [exact K1|exact HO1|apply frM_frM2, frM_refl|exact OL1'|intros; discriminate|intros; discriminate].
     + (* ERegAdd *)
-      assert (OL : ole (ERegAdd i n) o (obs_step cs o (th, ERegAdd i n))) by (apply obs_step_ole; intros; discriminate).
+      assert (OL : ole (ERegAdd i n) (o_cnt o) o (obs_step cs o (th, ERegAdd i n))) by (apply obs_step_ole; intros; discriminate).
       split; [|split].
       * eapply Rl_frame; [exact L|eapply step_reg_frL; [exact Hk|intros; discriminate]|exact OL].
-      * eapply Rg_insts; [exact G|exact OL|eapply reg_insts_same; [exact Hk|intros; discriminate]].
-      * destruct (reg_regadd _ _ _ _ _ Hk) as (x & Hx & Hn & ->). unfold set_stage. apply Rk_stage. eapply Rk_regadd; eauto.
+      * eapply Rg_insts; [exact G|exact HO|exact OL|intros; discriminate|eapply reg_insts_same; [exact Hk|intros; discriminate]].
+      * destruct (reg_regadd _ _ _ _ _ Hk) as (x & Hx & Hn & ->). unfold set_stage. apply Rk_stage.
+        eapply Rk_gen; [exact K|exact HO|exact OL| | | |].
+        -- intros j yo' Hj Hr. destruct (ole_inv _ _ _ _ _ _ OL Hj) as (yo & E & (L1 & _ & L3 & _)).
+           destruct (L3 Hr) as [Q|(_ & n0 & Q)]; [eauto|]. injection Q as <- <-. right. left. cbn.
+           destruct (rc_oi _ _ _ _ HR Hx) as (xo & A & B & _). assert (xo = yo) by congruence. subst xo.
+           rewrite L1, B, Hn, get_set_same. discriminate.
+        -- intros k [Q|Q]; [left|right; exact Q]. cbn. rewrite get_set. destruct (N.eqb n k); [discriminate|exact Q].
+        -- auto.
+        -- intros t. left. split; [reflexivity|]. try (f_equal; apply (ole_lk _ _ _ _ OL); intros; discriminate).
     + (* ERegDel *)
-      assert (OL : ole (ERegDel i) o (obs_step cs o (th, ERegDel i))) by (apply obs_step_ole; intros; discriminate).
+      assert (OL : ole (ERegDel i) (o_cnt o) o (obs_step cs o (th, ERegDel i))) by (apply obs_step_ole; intros; discriminate).
       split; [|split].
       * eapply Rl_frame; [exact L|eapply step_reg_frL; [exact Hk|intros; discriminate]|exact OL].
-      * eapply Rg_insts; [exact G|exact OL|eapply reg_insts_same; [exact Hk|intros; discriminate]].
-      * destruct (reg_regdel _ _ _ _ Hk) as (x & Hx & Hp & ->). eapply Rk_regdel; eauto.
+      * eapply Rg_insts; [exact G|exact HO|exact OL|intros; discriminate|eapply reg_insts_same; [exact Hk|intros; discriminate]].
+      * destruct (reg_regdel _ _ _ _ Hk) as (x & Hx & Hp & ->).
+        eapply Rk_gen; [exact K|exact HO|exact OL| | | |].
+        -- intros j yo' Hj Hr. left. eapply reg_old; eauto. intros; discriminate.
+        -- intros k [Q|Q]; [|right; exact Q]. destruct (N.eqb_spec (nm x) k).
+           ++ subst k. right. cbn. eapply (mi_added _ M); eauto. eapply (mi_late _ M); eauto. now rewrite Hp.
+           ++ left. cbn. now rewrite get_del_other.
+        -- auto.
+        -- intros t. left. split; [reflexivity|]. try (f_equal; apply (ole_lk _ _ _ _ OL); intros; discriminate).
     + (* ERegGet *)
-      assert (OL : ole (ERegGet n found) o (obs_step cs o (th, ERegGet n found))) by (apply obs_step_ole; intros; discriminate).
+      assert (OL : ole (ERegGet n found) (o_cnt o) o (obs_step cs o (th, ERegGet n found))) by (apply obs_step_ole; intros; discriminate).
       split; [|split].
       * eapply Rl_frame; [exact L|eapply step_reg_frL; [exact Hk|intros; discriminate]|exact OL].
-      * eapply Rg_insts; [exact G|exact OL|eapply reg_insts_same; [exact Hk|intros; discriminate]].
-      * destruct (reg_regget _ _ _ _ _ Hk) as (Hf & t' & -> & Hl). eapply Rk_set_thread; eauto.
-        intros i x xo Hti Hx Hxo. destruct Hl as [[Hold Hnew]|Hnew]; rewrite Hnew; cbn; [|exact I].
-        destruct found; [exact I|]. intros Hin Hol.
-        destruct (rk_dep _ _ _ K i x xo Hx Hxo n Hin Hol) as [Q|Q]; [congruence|exact Q].
+      * eapply Rg_insts; [exact G|exact HO|exact OL|intros; discriminate|eapply reg_insts_same; [exact Hk|intros; discriminate]].
+      * destruct (reg_regget _ _ _ _ _ Hk) as (Hf & t' & -> & Hl).
+        eapply Rk_gen; [exact K|exact HO|exact OL| | | |].
+        -- intros j yo' Hj Hr. left. eapply reg_old; eauto. intros; discriminate.
+        -- auto.
+        -- auto.
+        -- intros t. rewrite get_thread_set_thread. destruct (N.eqb_spec th t).
+           ++ subst t. right. destruct Hl as [[Hold Hnew]|Hnew]; rewrite Hnew; cbn [lkf]; [|exact I].
+              destruct found as [j0|]; [exact I|]. exists (o_cnt o). rewrite lk_regget, get_set_same. split; [reflexivity|].
+              intros Q. apply (olderR_inv _ _ _ _ _ OL (le_n _)) in Q. destruct Q as (j & yo & A & B & C & D).
+              destruct (rk_reg _ _ K j yo A B) as [Q|Q]; rewrite C in Q; [congruence|exact Q].
+           ++ left. split; [reflexivity|]. destruct found as [j0|].
+              ** rewrite (ole_lk _ _ _ _ OL); [reflexivity|intros; discriminate].
+              ** rewrite lk_regget, get_set. destruct (N.eqb_spec th t); [contradiction|reflexivity].
     + (* EDoneAdd *)
-      assert (OL : ole (EDoneAdd i) o (obs_step cs o (th, EDoneAdd i))) by (apply obs_step_ole; intros; discriminate).
+      assert (OL : ole (EDoneAdd i) (o_cnt o) o (obs_step cs o (th, EDoneAdd i))) by (apply obs_step_ole; intros; discriminate).
       split; [|split].
       * eapply Rl_frame; [exact L|eapply step_reg_frL; [exact Hk|intros; discriminate]|exact OL].
-      * eapply Rg_insts; [exact G|exact OL|eapply reg_insts_same; [exact Hk|intros; discriminate]].
-      * destruct (reg_doneadd _ _ _ _ Hk) as (x & Hx & ->). eapply Rk_doneadd; eauto.
+      * eapply Rg_insts; [exact G|exact HO|exact OL|intros; discriminate|eapply reg_insts_same; [exact Hk|intros; discriminate]].
+      * destruct (reg_doneadd _ _ _ _ Hk) as (x & Hx & ->).
+        eapply Rk_gen; [exact K|exact HO|exact OL| | | |].
+        -- intros j yo' Hj Hr. left. eapply reg_old; eauto. intros; discriminate.
+        -- intros k [Q|Q]; [left|right]; rewrite ?upd_inst_running, ?upd_inst_donereg; cbn; [exact Q|].
+           rewrite get_set. destruct (N.eqb (nm x) k); [discriminate|exact Q].
+        -- intros k Q. rewrite upd_inst_donereg. cbn. rewrite get_set. destruct (N.eqb (nm x) k); [discriminate|exact Q].
+        -- intros t. left. rewrite get_thread_upd_inst. split; [reflexivity|]. try (f_equal; apply (ole_lk _ _ _ _ OL); intros; discriminate).
     + (* EDoneGet *)
-      assert (OL : ole (EDoneGet n found) o (obs_step cs o (th, EDoneGet n found))) by (apply obs_step_ole; intros; discriminate).
+      assert (OL : ole (EDoneGet n found) (o_cnt o) o (obs_step cs o (th, EDoneGet n found))) by (apply obs_step_ole; intros; discriminate).
+      assert (Elk : o_lk (obs_step cs o (th, EDoneGet n found)) = o_lk o) by (apply (ole_lk _ _ _ _ OL); intros; discriminate).
       split; [|split].
       * eapply Rl_frame; [exact L|eapply step_reg_frL; [exact Hk|intros; discriminate]|exact OL].
-      * eapply Rg_insts; [exact G|exact OL|eapply reg_insts_same; [exact Hk|intros; discriminate]].
-      * destruct (reg_doneget _ _ _ _ _ Hk) as (Hf & t' & -> & Hl). eapply Rk_set_thread; eauto.
-        intros i x xo Hti Hx Hxo. destruct Hl as [[Hold Hnew]|Hnew]; rewrite Hnew; cbn; [|exact I].
-        destruct found; [exact I|]. intros Hin Hol.
-        pose proof (rk_lk _ _ _ K th i x xo Hti Hx Hxo) as Q. rewrite Hold in Q. cbn in Q. specialize (Q Hin Hol). congruence.
-  - (* api *) destruct (not_reg_ole o th e g (api_not_reg _ _ _ _ Hk)) as [OL Hp].
+      * eapply Rg_insts; [exact G|exact HO|exact OL|intros; discriminate|eapply reg_insts_same; [exact Hk|intros; discriminate]].
+      * destruct (reg_doneget _ _ _ _ _ Hk) as (Hf & t' & -> & Hl).
+        eapply Rk_gen; [exact K|exact HO|exact OL| | | |].
+        -- intros j yo' Hj Hr. left. eapply reg_old; eauto. intros; discriminate.
+        -- auto.
+        -- auto.
+        -- intros t. rewrite get_thread_set_thread. destruct (N.eqb_spec th t); [subst t; right|left; split; [reflexivity|now rewrite Elk]].
+           destruct Hl as [[Hold Hnew]|Hnew]; rewrite Hnew; cbn [lkf]; [|exact I].
+           destruct found as [j0|]; [exact I|].
+           pose proof (rk_lk _ _ K th) as Q. rewrite Hold in Q. cbn in Q. destruct Q as (b & A & B).
+           exists b. rewrite Elk. split; [exact A|]. intros Q. apply (olderR_inv _ _ _ _ _ OL (oi_lk _ HO _ _ _ A)) in Q.
+           apply B in Q. congruence.
+  - (* api *) destruct (not_reg_ole o th e (api_not_reg _ _ _ _ Hk)) as [OL Hp].
     eapply rest_frame; eauto using step_api_frL, step_api_frM.
-  - (* stop *) destruct (not_reg_ole o th e g (stop_not_reg _ _ _ _ Hk)) as [OL Hp].
+  - (* stop *) destruct (not_reg_ole o th e (stop_not_reg _ _ _ _ Hk)) as [OL Hp].
     eapply rest_frame; eauto using step_stop_frM.
     eapply step_stop_frL; [exact Hk|]. intros i ->.
     assert (exists x, get i (insts s) = Some x) as (x & Hx)
       by (unfold step_stop in Hk; destruct (get i (insts s)); [eauto|discriminate]).
     destruct (rc_oi _ _ _ _ HR Hx) as (xo & Exo & _). apply (gain_stopenter cs o th i xo Exo).
-  - (* state *) subst e. destruct (not_reg_ole o th (EState i s0) g eq_refl) as [OL Hp].
+  - (* state *) subst e. destruct (not_reg_ole o th (EState i s0) eq_refl) as [OL Hp].
     assert (exists x, get i (insts s) = Some x) as (x & Hx)
       by (unfold step_state in Hk; destruct (get i (insts s)); [eauto|discriminate]).
     destruct (rc_oi _ _ _ _ HR Hx) as (xo & Exo & _).
     assert (Hf : match o_endst xo with Some s1 => negb (status_eqb s1 s0) && negb (o_ended xo) | None => false end = false).
-    { destruct (gbad_parts _ Hg) as (_ & _ & Q). cbn in Q. unfold oi_get in Q. rewrite Exo in Q.
+    { pose proof Hg as Q. unfold gbad in Q. cbn in Q. unfold oi_get in Q. rewrite Exo in Q.
       apply orb_false_iff in Q. apply Q. }
     eapply rest_frame; eauto using step_state_frM.
     eapply step_state_frL; [exact Hk| |].
@@ -648,19 +653,19 @@ Proof.
     + intros x2 c Hx2 Hp2. assert (x2 = x) by congruence. subst.
       destruct (rl_inst _ _ L i x xo Hx Exo) as (_ & _ & _ & _ & K5). eapply ended_after_state; eauto.
   - (* procend *)
-    assert (Hre : reg_ev e = false) by (destruct b; subst; reflexivity).
-    destruct (not_reg_ole o th e g Hre) as [OL Hp].
+    assert (Hre : plain_ev e = true) by (destruct b; subst; reflexivity).
+    destruct (not_reg_ole o th e Hre) as [OL Hp].
     assert (exists x, get i (insts s) = Some x) as (x & Hx)
       by (unfold step_procend in Hk; destruct (get i (insts s)); [eauto|discriminate]).
     destruct (rc_oi _ _ _ _ HR Hx) as (xo & Exo & _).
     eapply rest_frame; eauto using step_procend_frM.
     eapply step_procend_frL; [exact Hk|]. intros ->. subst e.
     destruct (gain_procend cs o th i s0 xo Exo) as (y' & A & B). exists y'. split; [exact A|congruence].
-  - (* shutdown *) destruct (not_reg_ole o th e g (shutdown_not_reg _ _ _ _ Hk)) as [OL Hp].
+  - (* shutdown *) destruct (not_reg_ole o th e (shutdown_not_reg _ _ _ _ Hk)) as [OL Hp].
     eapply rest_frame; eauto using step_shutdown_frL, step_shutdown_frM.
-  - (* ordered *) subst. destruct (not_reg_ole o th (EOrderedGo i) g eq_refl) as [OL Hp].
+  - (* ordered *) subst. destruct (not_reg_ole o th (EOrderedGo i) eq_refl) as [OL Hp].
     eapply rest_frame; eauto using step_ordered_frL, step_ordered_frM.
-  - (* env *) destruct (not_reg_ole o th e g (env_not_reg _ _ _ _ Hk)) as [OL Hp].
+  - (* env *) destruct (not_reg_ole o th e (env_not_reg _ _ _ _ Hk)) as [OL Hp].
     eapply rest_frame; eauto using step_env_frM.
     eapply step_env_frL; [exact Hk| | |].
     + intros i xo' -> Hxo'.
@@ -680,21 +685,33 @@ Qed.
 Lemma in_removeN a k l : In a l -> a <> k -> In a (removeN k l).
 Proof. intros H Hne. unfold removeN. apply filter_In. split; [exact H|]. apply negb_true_iff. now apply N.eqb_neq. Qed.
 
+Lemma in_removeN_inv a k l : In a (removeN k l) -> In a l /\ a <> k.
+Proof. unfold removeN. rewrite filter_In. intros [A B]. split; [exact A|]. apply negb_true_iff in B. now apply N.eqb_neq. Qed.
+
 Lemma thread_lookup_none t k : thread_lookup t k = Some None -> lk t = LDone2 k None.
 Proof.
   unfold thread_lookup. destruct (lk t) as [|k1 [j|]|k1|k1 [j|]|k1 [j|]]; try discriminate;
   destruct (N.eqb_spec k1 k); try discriminate; intros; subst; reflexivity.
 Qed.
 
-Lemma dep_cond_in c k cc : dep_cond c k = Some cc -> In k (map fst (deps c)).
-Proof.
-  unfold dep_cond. destruct (find _ _) as [p|] eqn:F; [|discriminate]. intros _.
-  apply find_some in F. destruct F as [F1 F2]. apply N.eqb_eq in F2. subst k. now apply in_map.
-Qed.
-
 Lemma wf_nodup n c : wf_confs cs = true -> get n cs = Some c -> nodupN (map fst (deps c)) = true.
 Proof.
   intros Hwf Hn. unfold wf_confs in Hwf. rewrite forallb_forall in Hwf. apply get_in in Hn. exact (Hwf _ Hn).
+Qed.
+
+Lemma own_np s th e s' : step_own s th e = Some s' -> (forall i n, e <> ERegAdd i n) /\ (forall n, e <> ERegGet n None).
+Proof. intros H. split; intros; intros ->; kind_cases H. Qed.
+
+Lemma wait_of_last xo k w : wait_of xo k = None -> fst (fst w) = k ->
+  find (fun w0 => N.eqb (fst (fst w0)) k) (o_waits xo ++ [w]) = Some w.
+Proof. intros H E. subst k. rewrite (wait_of_app_none _ _ _ H). cbn [find]. now rewrite N.eqb_refl. Qed.
+
+Lemma wait_of_other xo k' w : fst (fst w) <> k' ->
+  find (fun w0 => N.eqb (fst (fst w0)) k') (o_waits xo ++ [w]) = wait_of xo k'.
+Proof.
+  intros Hne. unfold wait_of. induction (o_waits xo) as [|a r IH]; cbn.
+  - destruct (N.eqb_spec (fst (fst w)) k'); [contradiction|reflexivity].
+  - destruct (_ =? _)%N; [reflexivity|exact IH].
 Qed.
 
 Lemma core_step_own s o g th e s' :
@@ -703,7 +720,9 @@ Lemma core_step_own s o g th e s' :
   Rest s' (obs_step cs o (th, e)) (g_step cs o g (th, e)).
 Proof.
   intros Hwf HR HO HF M (L & G & K) H Hg.
-  destruct (not_reg_ole o th e g (own_not_reg _ _ _ _ H)) as [OL Hp].
+  destruct (own_np _ _ _ _ H) as [N1 N2].
+  assert (OL : ole e (o_cnt o) o (obs_step cs o (th, e))).
+  { apply obs_step_ole. intros i n ->. kind_cases H. }
   destruct (step_own_eff _ _ _ _ H) as (i & x & x' & Ht & Hx & Hx' & Hn & Hc & Hd & Tr & Ho & _).
   destruct (rc_oi _ _ _ _ HR Hx) as (xo & Exo & Bn & Cc).
   assert (Hoth : get th (o_th o) = Some i) by (rewrite <- (rc_th _ _ _ HR); exact Ht).
@@ -715,55 +734,73 @@ Proof.
                         | None => get j (insts s') = None end).
     { intros j Hj. rewrite (Ho j Hj). destruct (get j (insts s)); eauto using pc_ok_refl. }
     assert (Hnd : nodupN (map fst (deps (cf x))) = true) by (eapply wf_nodup; eauto).
-    destruct e; try (eapply Rg_frame; [exact G|eapply own_other_frM; [exact H|intros; discriminate|intros; discriminate]|exact OL]).
+    destruct e; try (eapply Rg_frame; [exact G|exact HO|eapply own_other_frM; [exact H|intros; discriminate|intros; discriminate]|exact OL|intros; discriminate]).
     + (* EDepWait *)
-      destruct Tr as (todo & c & P1 & P2 & P3 & P4).
+      destruct Tr as (todo & c & P1 & P0 & P2 & P3 & P4). apply memN_In in P0.
       assert (Hrem : remaining (pc x) = Some todo) by now rewrite P1.
-      eapply (Rg_upd _ s s' o _ i G OL Ho').
+      assert (Hnone : forall k', In k' todo -> wait_of xo k' = None).
+      { intros k' Hk'. eapply (rg_todo _ _ G i x xo todo); eauto. }
+      set (w := (k, found, miss_bound o th k)).
+      assert (Hws : forall xo', get i (oi (obs_step cs o (th, EDepWait k found))) = Some xo' -> o_waits xo' = o_waits xo ++ [w]).
+      { intros xo' Hxo'. destruct (depwait_spec _ _ _ _ _ _ _ Hxo') as (y & Ey & [Q|[_ Q]]).
+        - exfalso. revert Hxo'. unfold obs_step. cbn [fst snd ev_inst]. rewrite Hoth, refresh_get, oi_upd_get, N.eqb_refl, Exo. cbn.
+          intros Q2. assert (y = xo) by congruence. subst y. injection Q2 as <-. revert Q.
+          destruct (_ && _); cbn; intros Q; apply (f_equal (@length _)) in Q; rewrite app_length in Q; cbn in Q; lia.
+        - assert (y = xo) by congruence. subst y. exact Q. }
+      eapply (Rg_upd _ s s' o _ i G HO OL Ho').
+      * intros j y y' Hj Hy Hy'. destruct (depwait_spec _ _ _ _ _ _ _ Hy') as (y2 & Ey & [Q|[Q _]]); [congruence|congruence].
       * intros x2 xo' l Hx2 Hxo' Hr k0 c0 Hin Hnl. assert (x2 = x') by congruence. subst x2.
-        destruct (ole_inv _ _ _ _ _ OL Hxo') as (xo2 & E2 & LE). assert (xo2 = xo) by congruence. subst xo2.
-        pose proof LE as (_ & Li & _). rewrite Li. rewrite Hc in Hin. rewrite P4 in Hr.
+        destruct (ole_inv _ _ _ _ _ _ OL Hxo') as (xo2 & E2 & LE). assert (xo2 = xo) by congruence. subst xo2.
+        rewrite Hc in Hin. rewrite P4 in Hr. specialize (Hws xo' Hxo').
         destruct (N.eqb_spec k0 k).
         -- subst k0. destruct found as [j|]; cbn in Hr; injection Hr as <-; [exfalso; apply Hnl; now left|].
-           left. intros j yo' Hj Hnm Hlt.
-           pose proof (rk_lk _ _ _ K th i x xo Ht Hx Exo) as Q. rewrite (thread_lookup_none _ _ P3) in Q. cbn in Q.
-           apply Q; [eapply dep_cond_in; eauto|]. eapply older_inv; [exact OL|]. exists j, yo'. auto.
-        -- eapply Gate_mono; [exact OL|]. eapply (rg_gate _ _ G i x xo todo); eauto.
+           exists w. split; [unfold wait_of; rewrite Hws; apply wait_of_last; [now apply Hnone|reflexivity]|].
+           unfold w. cbn [GateW]. left. intros Q.
+           pose proof (rk_lk _ _ K th) as Q0. rewrite (thread_lookup_none _ _ P3) in Q0. cbn in Q0.
+           destruct Q0 as (b & A & B). unfold miss_bound in Q. rewrite A, N.eqb_refl in Q.
+           apply B. eapply olderR_inv; [exact OL|exact (oi_lk _ HO _ _ _ A)|exact Q].
+        -- eapply Gate_mono; [exact HO|exact OL|exact Exo|exact LE|]. eapply (rg_gate _ _ G i x xo todo); eauto.
            intros Hin2. apply Hnl. destruct found as [j|]; cbn in Hr; injection Hr as <-; [right|]; now apply in_removeN.
+      * intros x2 xo' todo1 Hx2 Hxo' Hpc k1 Hk1. assert (x2 = x') by congruence. subst x2.
+        specialize (Hws xo' Hxo'). rewrite P4 in Hpc.
+        assert (Et : todo1 = removeN k todo).
+        { destruct found as [j|]; destruct Hpc as [Q|(k2 & c2 & j2 & Q)]; try discriminate Q; injection Q; auto. }
+        subst todo1. apply in_removeN_inv in Hk1. destruct Hk1 as [Hk1 Hne].
+        unfold wait_of. rewrite Hws, wait_of_other; [now apply Hnone|cbn; congruence].
       * intros x2 xo' k1 c1 j1 todo1 Hx2 Hxo' Hpc. assert (x2 = x') by congruence. subst x2.
-        destruct (ole_inv _ _ _ _ _ OL Hxo') as (xo2 & E2 & LE). assert (xo2 = xo) by congruence. subst xo2.
-        pose proof LE as (_ & Li & _). rewrite Li. rewrite P4 in Hpc.
+        specialize (Hws xo' Hxo'). rewrite P4 in Hpc.
         destruct found as [j|]; [|discriminate Hpc]. injection Hpc as <- <- <- <-.
-        eapply blocked_mono; [exact OL|].
-        destruct (thread_lookup_ok _ _ _ _ (mi_lk _ M th) P3) as (y & Hy & Hyn).
-        destruct (rc_oi _ _ _ _ HR Hy) as (yo & Eyo & Byn & _).
-        destruct (gbad_parts _ Hg) as (_ & Q & _). cbn in Q. rewrite Hoth in Q. cbn in Q.
-        unfold oi_get in Q. rewrite Exo, Eyo in Q. apply orb_false_iff in Q. destruct Q as [_ Q].
-        apply andb_false_iff in Q. destruct Q as [Q|Q].
-        -- left. apply negb_false_iff, Nat.ltb_lt in Q. exists yo. repeat split; auto. congruence.
-        -- right. intros j' yo2 Hj' Hnm Hlt. unfold has_older in Q.
-           assert (existsb (fun y0 => N.eqb (o_nm y0) k && Nat.ltb (o_idx y0) (o_idx xo)) (vals (oi o)) = true); [|congruence].
-           apply existsb_exists. exists yo2. split; [eapply get_in_vals; eauto|].
-           apply andb_true_iff. split; [now apply N.eqb_eq|now apply Nat.ltb_lt].
+        exists k, (miss_bound o th k). unfold wait_of. rewrite Hws. apply wait_of_last; [now apply Hnone|reflexivity].
     + (* EDepDone *)
       destruct Tr as (c & j & todo & y & P1 & P2 & P3 & P4 & P5).
       assert (Hrem : remaining (pc x) = Some (k :: todo)) by now rewrite P1.
-      destruct (mi_blocked _ M i x k c j todo Hx P1) as [_ Hdc].
-      eapply (Rg_upd _ s s' o _ i G OL Ho').
+      destruct (mi_blocked _ M i x k c j todo Hx P1) as [(y2 & Hy2 & Hny) Hdc]. assert (y2 = y) by congruence. subst y2.
+      assert (Hsame : forall j0 y0 y0', get j0 (oi o) = Some y0 -> get j0 (oi (obs_step cs o (th, EDepDone k ok))) = Some y0' -> o_waits y0' = o_waits y0).
+      { intros j0 y0 y0'. eapply waits_same; [exact OL|intros; discriminate]. }
+      eapply (Rg_upd _ s s' o _ i G HO OL Ho').
+      * intros j0 y0 y0' _. apply Hsame.
       * intros x2 xo' l Hx2 Hxo' Hr k0 c0 Hin Hnl. assert (x2 = x') by congruence. subst x2.
-        destruct (ole_inv _ _ _ _ _ OL Hxo') as (xo2 & E2 & LE). assert (xo2 = xo) by congruence. subst xo2.
-        pose proof LE as (_ & Li & _). rewrite Li. rewrite Hc in Hin. rewrite P5 in Hr.
+        destruct (ole_inv _ _ _ _ _ _ OL Hxo') as (xo2 & E2 & LE). assert (xo2 = xo) by congruence. subst xo2.
+        rewrite Hc in Hin. rewrite P5 in Hr.
         destruct ok; [|discriminate Hr]. cbn in Hr. injection Hr as <-.
-        eapply Gate_mono; [exact OL|].
+        eapply Gate_mono; [exact HO|exact OL|exact Exo|exact LE|].
         destruct (N.eqb_spec k0 k).
         -- subst k0. assert (c0 = c) by (unfold dep_cond in Hdc; eapply dep_cond_unique; eauto). subst c0.
-           destruct (rg_blocked _ _ G i x xo k c j todo Hx Exo P1) as [(yo & A & B & C)|Q].
-           ++ right. exists j, yo. repeat split; auto. eapply met_of_latch; eauto.
-           ++ left. exact Q.
+           destruct (rg_blocked _ _ G i x xo k c j todo Hx Exo P1) as (k1 & b & Hw).
+           exists (k1, Some j, b). split; [exact Hw|]. cbn [GateW].
+           destruct (rc_oi _ _ _ _ HR P2) as (yo & Eyo & Byn & _). exists yo. repeat split; [exact Eyo|congruence|].
+           eapply met_of_latch; eauto.
         -- eapply (rg_gate _ _ G i x xo (k :: todo)); eauto. intros [Q|Q]; [congruence|contradiction].
+      * intros x2 xo' todo1 Hx2 Hxo' Hpc k1 Hk1. assert (x2 = x') by congruence. subst x2.
+        destruct (ole_inv _ _ _ _ _ _ OL Hxo') as (xo2 & E2 & LE). assert (xo2 = xo) by congruence. subst xo2.
+        unfold wait_of. rewrite (Hsame i xo xo' Exo Hxo'). rewrite P5 in Hpc.
+        destruct ok; destruct Hpc as [Q|(k2 & c2 & j2 & Q)]; try discriminate Q. injection Q as <-.
+        eapply (rg_todo _ _ G i x xo todo); eauto.
       * intros x2 xo' k1 c1 j1 todo1 Hx2 Hxo' Hpc. assert (x2 = x') by congruence. subst x2.
         rewrite P5 in Hpc. destruct ok; discriminate Hpc.
-  - eapply Rk_frame; [exact K|eapply step_own_frM2; eauto|exact OL|exact Hp].
+  - assert (D : (forall k f, e <> EDepWait k f) \/ exists k f, e = EDepWait k f).
+    { destruct e; try (left; intros; discriminate). right; eauto. }
+    eapply Rk_frame; [exact K|exact HO|eapply step_own_frM2; eauto|exact OL|exact N1|exact N2].
 Qed.
 
 (* ---- the simulation relation ------------------------------------------------------------------------------------ *)
@@ -782,6 +819,7 @@ Proof.
     + intros th. exact I.
     + intros n v r Hv _ Hh. rewrite (get_map_fst init_vis cs n) in Hv. destruct (get n cs) as [c|]; [|discriminate].
       cbn in Hv. injection Hv as <-. cbn in Hh. discriminate.
+    + intros th. exact I.
 Qed.
 
 Lemma R_step s o g th e s' : wf_confs cs = true -> R s o g -> step s (th, e) = Some s' ->
@@ -793,9 +831,9 @@ Proof.
   { intros Hg0. destruct (HRest Hg0) as (L & G & K). split; [|split; [|split; [|split]]].
     - eapply Rc_sys_same; eauto using sys_same_flush.
     - eapply Minv_frame; [exact M|apply frM_frM2, flush_frM].
-    - eapply (Rl_frame EResume); [exact L|apply flush_frL; apply (rl_pend _ _ L)|apply ole_refl].
-    - eapply (Rg_frame EResume); [exact G|apply flush_frM|apply ole_refl].
-    - eapply (Rk_frame EResume); [exact K|apply frM_frM2, flush_frM|apply ole_refl|reflexivity]. }
+    - eapply (Rl_frame EResume (o_cnt o)); [exact L|apply flush_frL; apply (rl_pend _ _ L)|apply ole_refl].
+    - eapply (Rg_frame EResume); [exact G|exact HO|apply flush_frM|apply ole_refl|intros; discriminate].
+    - eapply (Rk_frame EResume); [exact K|exact HO|apply frM_frM2, flush_frM|apply ole_refl|intros; discriminate|intros; discriminate]. }
   split.
   - constructor.
     + eapply Rc_step; eauto.
@@ -856,9 +894,16 @@ Proof.
     + injection E as -> ->. cbn. eapply IH; eauto.
 Qed.
 
-(* instances of name k that were created before the instance with creation index ix *)
-Definition older_insts (o : obs) (k : name) (ix : nat) : list oinst :=
-  filter (fun y => N.eqb (o_nm y) k && Nat.ltb (o_idx y) ix) (vals (oi o)).
+(* what the monitor demands for one dependency (k, c) of the launching instance x *)
+Definition dep_ok (o : obs) (x : oinst) (k : name) (c : cond) : Prop :=
+  match wait_of x k with
+  | Some (_, Some j, _) => o_nm (oi_get o j) = k /\ met o c (oi_get o j) = true
+  | Some (_, None, b) => reg_before o k b = [] \/ exists y, In y (reg_before o k b) /\ met o c y = true
+  | None => reg_before o k (o_cnt o) = [] \/ exists y, In y (reg_before o k (o_cnt o)) /\ met o c y = true
+  end.
+
+Lemma some_met_prop o c J : some_met o c J = true -> J = [] \/ exists y, In y J /\ met o c y = true.
+Proof. unfold some_met. destruct J as [|y l]; [now left|right]. now apply existsb_exists. Qed.
 
 Lemma C01_declarative_lemma : forall cs ord evs s,
   wf_confs cs = true -> accept (init cs ord) evs = Some s -> sched_ok_C01 cs evs = true ->
@@ -866,14 +911,16 @@ Lemma C01_declarative_lemma : forall cs ord evs s,
   let o := fold_left (obs_step cs) pre (obs0 cs) in
   forall i, get th (o_th o) = Some i ->
   let x := oi_get o i in
-  forall k c, In (k, c) (deps (conf_of cs (o_nm x))) ->
-  older_insts o k (o_idx x) = [] \/ exists y, In y (older_insts o k (o_idx x)) /\ met o c y = true.
+  forall k c, In (k, c) (deps (conf_of cs (o_nm x))) -> dep_ok o x k c.
 Proof.
   intros cs ord evs s Hwf Hacc Hs pre th post E o i Hi x k c Hin.
   pose proof (C01_main_partial_lemma cs ord evs s Hwf Hacc Hs) as H. unfold holds_C01, holds in H.
   destruct (mon_run cs (mon_C01 cs) (obs0 cs) evs 0) eqn:Em; [discriminate|].
   pose proof (mon_run_none_forall cs (mon_C01 cs) evs (obs0 cs) 0 Em pre (th, ELaunch true) post E) as Q.
   fold o in Q. unfold mon_C01 in Q. cbn [fst snd ev_inst] in Q. rewrite Hi in Q. fold x in Q.
-  rewrite forallb_forall in Q. specialize (Q (k, c) Hin). cbn [fst snd] in Q. fold (older_insts o k (o_idx x)) in Q.
-  destruct (older_insts o k (o_idx x)) as [|y l]; [now left|right]. apply existsb_exists in Q. exact Q.
+  rewrite forallb_forall in Q. specialize (Q (k, c) Hin). cbn [fst snd] in Q. unfold dep_ok.
+  destruct (wait_of x k) as [[[k0 [j|]] b]|].
+  - apply andb_true_iff in Q. destruct Q as [Q1 Q2]. apply N.eqb_eq in Q1. auto.
+  - now apply some_met_prop.
+  - now apply some_met_prop.
 Qed.
